@@ -76,15 +76,15 @@ Qed.
 
 (* ------------------------------------------------------------------ induction principles *)
 
+Definition optP {A} (P : A -> Prop) (o : option A) : Prop := match o with Some t => P t | None => True end.
+
 Section TyInd.
 Variable P : ty -> Prop.
 Hypothesis Hprim : forall p sp, P (TyPrim p sp).
 Hypothesis Htuple : forall ts sp, Forall P ts -> P (TyTuple ts sp).
 Hypothesis Hlist : forall t sp, P t -> P (TyList t sp).
 Hypothesis Hoption : forall t sp, P t -> P (TyOption t sp).
-Hypothesis Hresult : forall ok err sp,
-  match ok with Some t => P t | None => True end -> match err with Some t => P t | None => True end ->
-  P (TyResult ok err sp).
+Hypothesis Hresult : forall ok err sp, optP P ok -> optP P err -> P (TyResult ok err sp).
 Hypothesis Hborrow : forall i sp, P (TyBorrow i sp).
 Hypothesis Hborrowty : forall t sp, P t -> P (TyBorrowTy t sp).
 Hypothesis Hident : forall i, P (TyIdent i).
@@ -99,8 +99,8 @@ Fixpoint ty_ind' (t : ty) : P t :=
   | TyOption t sp => Hoption t sp (ty_ind' t)
   | TyResult ok err sp =>
       Hresult ok err sp
-        (match ok as o return match o with Some t => P t | None => True end with Some t => ty_ind' t | None => I end)
-        (match err as o return match o with Some t => P t | None => True end with Some t => ty_ind' t | None => I end)
+        (match ok as o return optP P o with Some t => ty_ind' t | None => I end)
+        (match err as o return optP P o with Some t => ty_ind' t | None => I end)
   | TyBorrow i sp => Hborrow i sp
   | TyBorrowTy t sp => Hborrowty t sp (ty_ind' t)
   | TyIdent i => Hident i
@@ -178,9 +178,10 @@ Definition rt1d {A} (G : drel A) (pr : A -> list cmd) (snf : A -> A) (x : A) : P
   exists x' r, G (map LTok ts) (map LTok r) x' /\ Forall2 R r (catoks src [] rest) /\
                snf x' = snf x /\ map (res1 src') (pr x') = map (res1 src) (pr x).
 
-Ltac peel H :=
-  let t := fresh "t" in let ts := fresh "ts" in let HR := fresh "HR" in
+Tactic Notation "peel" hyp(H) "as" ident(t) ident(ts) ident(HR) :=
   apply Forall2_cons_inv_r in H; destruct H as (t & ts & -> & HR & H).
+
+Ltac nrm H := repeat (progress (repeat (rewrite <- app_assoc in H); cbn [app catoks src_id src_str src_path] in H)).
 
 Ltac tokg := first [ eapply tok_intro; eassumption | split; [reflexivity|eapply R_kind; eassumption] ].
 
@@ -188,12 +189,12 @@ Ltac tokg := first [ eapply tok_intro; eassumption | split; [reflexivity|eapply 
 
 Lemma leaf_ident i t docs :
   wf_ident src i -> R t (TIdent, slice_or_nil src (id_span i), docs) ->
-  sn_ident (mk_ident t) = sn_ident i /\ slice src' (id_span (mk_ident t)) = slice src (id_span i).
+  sn_ident (mk_ident t) = sn_ident i /\ slice src' (tsp t) = slice src (id_span i).
 Proof.
   intros (txt & Hs & Hi) HR. pose proof (R_text _ _ _ _ HR) as Ht. pose proof (R_acc _ _ HR) as Ha.
   unfold slice_or_nil in Ht. rewrite Hs in Ht. split.
   - unfold sn_ident. f_equal. rewrite Hi. unfold mk_ident, tok_at. cbn [id_string ttext]. now rewrite Ht.
-  - cbn [mk_ident id_span]. rewrite Ha, Hs. now f_equal.
+  - rewrite Ha, Hs. now f_equal.
 Qed.
 
 Lemma g_id_intro t ts docs txt :
@@ -243,15 +244,15 @@ Qed.
 (** Derivations for the one-token leaves, in the [rt1] form. *)
 Lemma rt_ident i : wf_ident src i -> rt1 g_id (fun i => [src_id i]) sn_ident i.
 Proof.
-  intros Hwf docs rest ts H. cbn [app catoks src_id] in H. peel H.
+  intros Hwf docs rest ts H. cbn [app catoks src_id] in H. peel H as t ts0 HR.
   destruct (leaf_ident _ _ _ Hwf HR) as [H1 H2].
   exists (mk_ident t), ts0. split; [eapply g_id_intro; eauto|]. split; [exact H|]. split; [exact H1|].
-  cbn [map res1 src_id]. now rewrite H2.
+  cbn [map res1 src_id mk_ident id_span]. now rewrite H2.
 Qed.
 
 Lemma rt_strlit s : wf_strlit src s -> rt1 g_string (fun s => [src_str s]) sn_strlit s.
 Proof.
-  intros Hwf docs rest ts H. cbn [app catoks src_str] in H. peel H.
+  intros Hwf docs rest ts H. cbn [app catoks src_str] in H. peel H as t ts0 HR.
   destruct (leaf_strlit _ _ _ Hwf HR) as (s' & H0 & H1 & H2).
   exists s', ts0. split; [exists t; split; [tokg|exact H0]|]. split; [exact H|]. split; [exact H1|].
   cbn [map res1 src_str]. now rewrite H2.
@@ -259,7 +260,7 @@ Qed.
 
 Lemma rt_package_path p : wf_package_path src p -> rt1 g_package_path (fun p => [src_path p]) sn_package_path p.
 Proof.
-  intros Hwf docs rest ts H. cbn [app catoks src_path] in H. peel H.
+  intros Hwf docs rest ts H. cbn [app catoks src_path] in H. peel H as t ts0 HR.
   destruct (leaf_package_path _ _ _ Hwf HR) as (p' & H0 & H1 & H2).
   exists p', ts0. split; [exists t; split; [tokg|exact H0]|]. split; [exact H|]. split; [exact H1|].
   cbn [map res1 src_path]. now rewrite H2.
@@ -268,10 +269,1145 @@ Qed.
 Lemma rt_package_name p :
   wf_package_name src p -> rt1 g_package_name (fun p => [CSrc TPackageName (pn_span p)]) sn_package_name p.
 Proof.
-  intros Hwf docs rest ts H. cbn [app catoks] in H. peel H.
+  intros Hwf docs rest ts H. cbn [app catoks] in H. peel H as t ts0 HR.
   destruct (leaf_package_name _ _ _ Hwf HR) as (p' & H0 & H1 & H2).
   exists p', ts0. split; [exists t; split; [tokg|exact H0]|]. split; [exact H|]. split; [exact H1|].
   cbn [map res1]. now rewrite H2.
 Qed.
 
+(* ------------------------------------------------------------------ lists *)
+
+Lemma comma_sep_true_cons {A} (pr : A -> list cmd) x l : comma_sep pr true (x :: l) = pr x ++ comma_sep pr false l.
+Proof. reflexivity. Qed.
+Lemma comma_sep_false_cons {A} (pr : A -> list cmd) x l :
+  comma_sep pr false (x :: l) = CTok TComma :: CSp :: pr x ++ comma_sep pr false l.
+Proof. reflexivity. Qed.
+
+(** [x, y, z] (no trailing comma) *)
+Lemma rt_comma_sep_ne {A} (G : drel A) (pr : A -> list cmd) (snf : A -> A) l : forall x,
+  Forall (rt1 G pr snf) (x :: l) ->
+  forall docs rest ts, Forall2 R ts (catoks src docs (comma_sep pr true (x :: l) ++ rest)) ->
+  exists items' r, seplist G (map LTok ts) (map LTok r) (items', false) /\ items' <> [] /\
+                   Forall2 R r (catoks src [] rest) /\ map snf items' = map snf (x :: l) /\
+                   map (res1 src') (comma_sep pr true items') = map (res1 src) (comma_sep pr true (x :: l)).
+Proof.
+  induction l as [|y l IH]; intros x Hall docs rest ts H; inversion Hall as [|? ? Hx Hl]; subst.
+  - rewrite comma_sep_true_cons in H. cbn [comma_sep] in H. rewrite app_nil_r in H.
+    destruct (Hx _ _ _ H) as (x' & r & Hg & Hr & Hsn & Hres).
+    exists [x'], r. split; [now apply sl_one|]. split; [discriminate|]. split; [exact Hr|].
+    split; [cbn; now rewrite Hsn|]. cbn [comma_sep app]. rewrite !app_nil_r. exact Hres.
+  - rewrite comma_sep_true_cons, comma_sep_false_cons, <- app_assoc in H.
+    destruct (Hx _ _ _ H) as (x' & r1 & Hg & Hr & Hsn & Hres). cbn [app catoks] in Hr. peel Hr as t ts0 HR.
+    change (pr y ++ comma_sep pr false l) with (comma_sep pr true (y :: l)) in Hr.
+    destruct (IH y Hl _ _ _ Hr) as (items' & r & Hg2 & Hne & Hr2 & Hsn2 & Hres2).
+    exists (x' :: items'), r. split.
+    { eapply sl_cons; [exact Hg|eapply tok_intro; eauto|exact Hg2|exact Hne]. }
+    split; [discriminate|]. split; [exact Hr2|]. split; [cbn [map]; now rewrite Hsn, Hsn2|].
+    destruct items' as [|y' l']; [congruence|].
+    rewrite !comma_sep_true_cons, !comma_sep_false_cons, !map_app. cbn [map]. rewrite !map_app.
+    rewrite Hres. f_equal. f_equal. f_equal.
+    rewrite !comma_sep_true_cons, !map_app in Hres2. exact Hres2.
+Qed.
+
+(** possibly empty, after a token *)
+Lemma rt_comma_sep {A} (G : drel A) (pr : A -> list cmd) (snf : A -> A) l :
+  Forall (rt1 G pr snf) l ->
+  forall rest ts, Forall2 R ts (catoks src [] (comma_sep pr true l ++ rest)) ->
+  exists items' r, seplist G (map LTok ts) (map LTok r) (items', false) /\
+                   Forall2 R r (catoks src [] rest) /\ map snf items' = map snf l /\
+                   map (res1 src') (comma_sep pr true items') = map (res1 src) (comma_sep pr true l).
+Proof.
+  destruct l as [|x l]; intros Hall rest ts H.
+  - exists [], ts. split; [constructor|]. split; [exact H|]. split; reflexivity.
+  - destruct (rt_comma_sep_ne G pr snf l x Hall _ _ _ H) as (items' & r & H1 & _ & H2 & H3 & H4). eauto 8.
+Qed.
+
+Lemma All_Forall {A} (P Q : A -> Prop) l : (forall x, P x -> Q x) -> All P l -> Forall Q l.
+Proof. intros HPQ. induction l as [|x l IH]; cbn; [constructor|]. intros [H1 H2]. constructor; auto. Qed.
+
+(* ------------------------------------------------------------------ value types *)
+
+Lemma prim_of_prim_token p : prim_of_token (prim_token p) = Some p.
+Proof. destruct p; reflexivity. Qed.
+
+Lemma p_ty_tuple tys sp :
+  p_ty (TyTuple tys sp) = CTok TTupleKeyword :: CTok TOpenAngle :: comma_sep p_ty true tys ++ [CTok TCloseAngle].
+Proof.
+  cbn [p_ty app]. do 3 f_equal. generalize true.
+  induction tys as [|x l IH]; intros b; cbn [comma_sep]; [reflexivity|]. now rewrite IH.
+Qed.
+
+Lemma rt_ty t : wf_ty src t -> rt1 (g_type d) p_ty sn_ty t.
+Proof.
+  induction t as [p sp|tys sp IH|t sp IH|t sp IH|ok err sp IHok IHerr|i sp|t sp IH|i] using ty_ind';
+    intros Hwf docs rest ts H.
+  - (* primitive *)
+    cbn [p_ty] in H. nrm H. peel H as kw r0 Hkw. exists (TyPrim p (tsp kw)), r0.
+    split; [eapply gt_prim; [reflexivity|]; rewrite (R_kind _ _ _ _ Hkw); apply prim_of_prim_token|].
+    split; [exact H|]. split; reflexivity.
+  - (* tuple *)
+    destruct Hwf as [Hne Hall].
+    assert (Hf : Forall (rt1 (g_type d) p_ty sn_ty) tys).
+    { clear Hne H. induction IH as [|x l Hx _ IHl]; [constructor|]. destruct Hall as [H1 H2]. constructor; auto. }
+    rewrite p_ty_tuple in H. cbn [app catoks] in H. peel H as kw r0 Hkw. peel H as oa r1 Hoa.
+    nrm H. destruct tys as [|x l]; [congruence|].
+    destruct (rt_comma_sep_ne _ _ _ l x Hf _ _ _ H) as (tys' & r2 & Hg & Hne' & Hr & Hsn & Hres).
+    nrm Hr. peel Hr as ca r3 Hca.
+    exists (TyTuple tys' (span_join (tsp kw) (tsp ca))), r3. split.
+    { eapply gt_tuple; [tokg|tokg|apply seplist_g_types; exact Hg|exact Hne'|tokg]. }
+    split; [exact Hr|]. split; [cbn [sn_ty]; now rewrite Hsn|].
+    rewrite !p_ty_tuple. cbn [map res1]. rewrite !map_app. now rewrite Hres.
+  - (* list *)
+    cbn [p_ty] in H. nrm H. peel H as kw r0 Hkw. peel H as oa r1 Hoa. nrm H.
+    destruct (IH Hwf _ _ _ H) as (t' & r2 & Hg & Hr & Hsn & Hres). nrm Hr. peel Hr as ca r3 Hca.
+    exists (TyList t' (span_join (tsp kw) (tsp ca))), r3. split; [eapply gt_list; [tokg|tokg|exact Hg|tokg]|].
+    split; [exact Hr|]. split; [cbn [sn_ty]; now rewrite Hsn|].
+    cbn [p_ty map res1 app]. rewrite !map_app. now rewrite Hres.
+  - (* option *)
+    cbn [p_ty] in H. nrm H. peel H as kw r0 Hkw. peel H as oa r1 Hoa. nrm H.
+    destruct (IH Hwf _ _ _ H) as (t' & r2 & Hg & Hr & Hsn & Hres). nrm Hr. peel Hr as ca r3 Hca.
+    exists (TyOption t' (span_join (tsp kw) (tsp ca))), r3. split; [eapply gt_option; [tokg|tokg|exact Hg|tokg]|].
+    split; [exact Hr|]. split; [cbn [sn_ty]; now rewrite Hsn|].
+    cbn [p_ty map res1 app]. rewrite !map_app. now rewrite Hres.
+  - (* result *)
+    destruct Hwf as [Hwok Hwerr]. destruct ok as [ok|], err as [err|]; cbn [optP] in *.
+    + cbn [p_ty] in H. nrm H. peel H as kw r0 Hkw. peel H as oa r1 Hoa. nrm H.
+      destruct (IHok Hwok _ _ _ H) as (ok' & r2 & Hg & Hr & Hsn & Hres). nrm Hr. peel Hr as cm r3 Hcm.
+      destruct (IHerr Hwerr _ _ _ Hr) as (err' & r4 & Hg2 & Hr2 & Hsn2 & Hres2). nrm Hr2.
+      peel Hr2 as ca r5 Hca.
+      exists (TyResult (Some ok') (Some err') (span_join (tsp kw) (tsp ca))), r5.
+      split; [eapply gt_result_both; [tokg|tokg|exact Hg|tokg|exact Hg2|tokg]|].
+      split; [exact Hr2|]. split; [cbn [sn_ty option_map]; now rewrite Hsn, Hsn2|].
+      cbn [p_ty map res1 app]. rewrite !map_app. cbn [map res1]. rewrite !map_app. now rewrite Hres, Hres2.
+    + cbn [p_ty] in H. nrm H. peel H as kw r0 Hkw. peel H as oa r1 Hoa. nrm H.
+      destruct (IHok Hwok _ _ _ H) as (ok' & r2 & Hg & Hr & Hsn & Hres). nrm Hr. peel Hr as ca r3 Hca.
+      exists (TyResult (Some ok') None (span_join (tsp kw) (tsp ca))), r3.
+      split; [eapply gt_result_ok; [tokg|tokg|exact Hg|tokg]|].
+      split; [exact Hr|]. split; [cbn [sn_ty option_map]; now rewrite Hsn|].
+      cbn [p_ty map res1 app]. rewrite !map_app. now rewrite Hres.
+    + cbn [p_ty] in H. nrm H. peel H as kw r0 Hkw. peel H as oa r1 Hoa. peel H as us r2 Hus. peel H as cm r3 Hcm.
+      nrm H.
+      destruct (IHerr Hwerr _ _ _ H) as (err' & r4 & Hg & Hr & Hsn & Hres). nrm Hr. peel Hr as ca r5 Hca.
+      exists (TyResult None (Some err') (span_join (tsp kw) (tsp ca))), r5.
+      split; [eapply gt_result_err; [tokg|tokg|tokg|tokg|exact Hg|tokg]|].
+      split; [exact Hr|]. split; [cbn [sn_ty option_map]; now rewrite Hsn|].
+      cbn [p_ty map res1 app]. rewrite !map_app. now rewrite Hres.
+    + cbn [p_ty] in H. nrm H. peel H as kw r0 Hkw.
+      exists (TyResult None None (tsp kw)), r0. split; [eapply gt_result; tokg|].
+      split; [exact H|]. split; reflexivity.
+  - (* borrow *)
+    cbn [p_ty src_id] in H. nrm H. peel H as kw r0 Hkw. peel H as oa r1 Hoa. peel H as it r2 Hit. peel H as ca r3 Hca.
+    destruct (leaf_ident _ _ _ Hwf Hit) as [H1 H2].
+    exists (TyBorrow (mk_ident it) (span_join (tsp kw) (tsp ca))), r3. split.
+    { eapply gt_borrow; [tokg|tokg|eapply g_id_intro; eauto|tokg]. }
+    split; [exact H|]. split; [cbn [sn_ty]; now rewrite H1|].
+    cbn [p_ty map res1 src_id mk_ident id_span]. now rewrite H2.
+  - (* borrow<type>: not a tree of the implementation *)
+    destruct Hwf.
+  - (* identifier *)
+    cbn [p_ty src_id] in H. nrm H. peel H as it r0 Hit. destruct (leaf_ident _ _ _ Hwf Hit) as [H1 H2].
+    exists (TyIdent (mk_ident it)), r0. split; [apply gt_id; eapply g_id_intro; eauto|].
+    split; [exact H|]. split; [cbn [sn_ty]; now rewrite H1|].
+    cbn [p_ty map res1 src_id mk_ident id_span]. now rewrite H2.
+Qed.
+
+(* ------------------------------------------------------------------ function types *)
+
+Ltac fin_sn := cbn; congruence.
+Ltac simp_res :=
+  repeat (rewrite ?map_app;
+          cbn [map res1 src_id src_str src_path app mk_ident id_span nt_id nt_ty ft_params ft_results vc_docs vc_id vc_ty
+               fd_docs fd_id fd_ty fl_docs fl_id ec_docs ec_id ui_id ui_as u_docs u_path u_items ii_from ii_to
+               pd_package pd_targets doc_docs doc_directive doc_statements]).
+Ltac simp_res_in H :=
+  repeat (rewrite ?map_app in H;
+          cbn [map res1 src_id src_str src_path app mk_ident id_span nt_id nt_ty ft_params ft_results vc_docs vc_id vc_ty
+               fd_docs fd_id fd_ty fl_docs fl_id ec_docs ec_id ui_id ui_as u_docs u_path u_items ii_from ii_to
+               pd_package pd_targets doc_docs doc_directive doc_statements] in H).
+Ltac fin_res := simp_res; congruence.
+
+Lemma rt_named_type n : wf_named_type src n -> rt1 (g_named_type d) p_named_type sn_named_type n.
+Proof.
+  destruct n as [i t]. intros [Hi Ht] docs rest ts H. cbn [nt_id nt_ty] in *. unfold p_named_type in H. cbn [nt_id nt_ty] in H. nrm H.
+  peel H as it r0 Hit. peel H as co r1 Hco.
+  destruct (leaf_ident _ _ _ Hi Hit) as [H1 H2].
+  destruct (rt_ty _ Ht _ _ _ H) as (t' & r2 & Hg & Hr & Hsn & Hres).
+  exists {| nt_id := mk_ident it; nt_ty := t' |}, r2. split.
+  { exists (map LTok (co :: r1)), (map LTok r1), (mk_ident it), co, t'.
+    split; [eapply g_id_intro; eauto|]. split; [tokg|]. split; [exact Hg|reflexivity]. }
+  split; [exact Hr|]. split; [unfold sn_named_type; fin_sn|]. unfold p_named_type. fin_res.
+Qed.
+
+Lemma rt_params ps :
+  All (wf_named_type src) ps ->
+  forall rest ts, Forall2 R ts (catoks src [] (p_named_types ps ++ rest)) ->
+  exists ps' r, g_params d (map LTok ts) (map LTok r) ps' /\ Forall2 R r (catoks src [] rest) /\
+                map sn_named_type ps' = map sn_named_type ps /\
+                map (res1 src') (p_named_types ps') = map (res1 src) (p_named_types ps).
+Proof.
+  intros Hps rest ts H. unfold p_named_types in *.
+  destruct (rt_comma_sep (g_named_type d) p_named_type sn_named_type ps
+              (All_Forall _ _ _ rt_named_type Hps) _ _ H) as (ps' & r & Hg & Hr & Hsn & Hres).
+  exists ps', r. split; [exists false; exact Hg|]. auto.
+Qed.
+
+Lemma rt_func_type f : wf_func_type src f -> rt1 (g_func_type d) p_func_type sn_func_type f.
+Proof.
+  destruct f as [ps res]. intros [Hps Hres] docs rest ts H. cbn [ft_params ft_results] in *.
+  unfold p_func_type in H. cbn [ft_params ft_results] in H. nrm H.
+  peel H as kw r0 Hkw. peel H as op r1 Hop.
+  destruct (rt_params _ Hps _ _ H) as (ps' & r2 & Hg & Hr & Hsn & Hrs). nrm Hr. peel Hr as cp r3 Hcp.
+  destruct res as [|t|rs]; [| |destruct Hres].
+  - (* no results *)
+    cbn [app] in Hr.
+    exists {| ft_params := ps'; ft_results := RLEmpty |}, r3. split.
+    { do 4 eexists. exists kw, op, cp, ps', None.
+      split; [tokg|]. split; [tokg|]. split; [exact Hg|]. split; [tokg|]. split; [constructor|reflexivity]. }
+    split; [exact Hr|]. split; [unfold sn_func_type; fin_sn|]. unfold p_func_type. fin_res.
+  - (* scalar result *)
+    nrm Hr. peel Hr as ar r4 Har.
+    destruct (rt_ty _ Hres _ _ _ Hr) as (t' & r5 & Hg2 & Hr2 & Hsn2 & Hrs2).
+    exists {| ft_params := ps'; ft_results := RLScalar t' |}, r5. split.
+    { do 4 eexists. exists kw, op, cp, ps', (Some (RLScalar t')).
+      split; [tokg|]. split; [tokg|]. split; [exact Hg|]. split; [tokg|].
+      split; [eapply opt_some; [tokg|apply gr_scalar; exact Hg2]|reflexivity]. }
+    split; [exact Hr2|]. split; [unfold sn_func_type; fin_sn|]. unfold p_func_type. fin_res.
+Qed.
+
+(* ------------------------------------------------------------------ doc comments *)
+
+(** The doc lines the repaired printer writes = the specification's normal form. *)
+Definition printed_lines (ds : list doc) : list str := flat_map (fun dc => doc_lines_of fx (fst dc)) ds.
+
+Lemma printed_lines_norm ds : printed_lines ds = doc_norm ds.
+Proof. unfold printed_lines, doc_norm. apply flat_map_ext. intros a. apply doc_lines_repaired. Qed.
+
+Lemma p_docs_flat ds : p_docs fx ds = flat_map (fun l => [CIndent; CDoc l; CNewline]) (printed_lines ds).
+Proof.
+  unfold p_docs, printed_lines. induction ds as [|a ds IH]; [reflexivity|].
+  cbn [flat_map]. now rewrite flat_map_app, IH.
+Qed.
+
+Lemma catoks_docs ds docs rest :
+  catoks src docs (p_docs fx ds ++ rest) = catoks src (docs ++ map doc_of_line (printed_lines ds)) rest.
+Proof.
+  rewrite p_docs_flat. generalize (printed_lines ds) as L. intros L. revert docs.
+  induction L as [|l L IH]; intros docs; cbn [flat_map map app catoks]; [now rewrite app_nil_r|].
+  rewrite IH, <- app_assoc. reflexivity.
+Qed.
+
+Lemma res1_docs a b ds : map (res1 a) (p_docs fx ds) = map (res1 b) (p_docs fx ds).
+Proof. rewrite p_docs_flat. induction (printed_lines ds) as [|l L IH]; [reflexivity|]. cbn. now rewrite IH. Qed.
+
+Lemma doc_norm_map ds : doc_norm ds = flat_map doc_norm_text (map fst ds).
+Proof. unfold doc_norm. induction ds as [|a ds IH]; [reflexivity|]. cbn. now rewrite IH. Qed.
+
+(** The docs a token carries after the printed doc lines of [ds] are [ds] again, up to [norm_docs]. *)
+Lemma docs_back t0 k txt ds :
+  R t0 (k, txt, map doc_of_line (printed_lines ds)) ->
+  sn_docs (tdocs t0) = sn_docs ds /\ p_docs fx (tdocs t0) = p_docs fx ds.
+Proof.
+  intros HR. apply R_docs in HR.
+  assert (E : doc_norm (tdocs t0) = doc_norm ds).
+  { rewrite (doc_norm_map (tdocs t0)), HR, printed_lines_norm. rewrite (doc_norm_map ds) at 1.
+    rewrite doc_norm_lines_fix; [symmetry; apply doc_norm_map|apply doc_norm_flat_elems]. }
+  split; [unfold sn_docs; now rewrite E|]. rewrite !p_docs_flat, !printed_lines_norm. now rewrite E.
+Qed.
+
+(** Resolved commands of a doc-bearing prefix. *)
+Lemma docs_back2 t0 k txt ds :
+  R t0 (k, txt, map doc_of_line (printed_lines ds)) ->
+  sn_docs (tdocs t0) = sn_docs ds /\ map (res1 src') (p_docs fx (tdocs t0)) = map (res1 src) (p_docs fx ds).
+Proof. intros H. destruct (docs_back _ _ _ _ H) as [E1 E2]. split; [exact E1|]. rewrite E2. apply res1_docs. Qed.
+
+(* ------------------------------------------------------------------ more lists *)
+
+(** [x, y, z,] -- every item followed by a comma (and a line feed) *)
+Lemma rt_comma_lines {A} (G : drel A) (pr : A -> list cmd) (snf : A -> A) l : forall x,
+  Forall (rt1d G pr snf) (x :: l) ->
+  forall rest ts, Forall2 R ts (catoks src [] (comma_lines pr (x :: l) ++ rest)) ->
+  exists items' r, seplist G (map LTok ts) (map LTok r) (items', true) /\ items' <> [] /\
+                   Forall2 R r (catoks src [] rest) /\ map snf items' = map snf (x :: l) /\
+                   map (res1 src') (comma_lines pr items') = map (res1 src) (comma_lines pr (x :: l)).
+Proof.
+  unfold comma_lines.
+  induction l as [|y l IH]; intros x Hall rest ts H; inversion Hall as [|? ? Hx Hl]; subst;
+    cbn [flat_map] in H; nrm H.
+  - destruct (Hx _ _ H) as (x' & r1 & Hg & Hr & Hsn & Hres). nrm Hr. peel Hr as cm r2 Hcm.
+    exists [x'], r2. split; [eapply sl_trail; [exact Hg|tokg]|]. split; [discriminate|]. split; [exact Hr|].
+    split; [cbn; now rewrite Hsn|]. cbn [flat_map]. rewrite !app_nil_r, !map_app. now rewrite Hres.
+  - destruct (Hx _ _ H) as (x' & r1 & Hg & Hr & Hsn & Hres). nrm Hr. peel Hr as cm r2 Hcm.
+    assert (Hr' : Forall2 R r2 (catoks src [] (flat_map (fun x0 => pr x0 ++ [CTok TComma; CNewline]) (y :: l) ++ rest))).
+    { cbn [flat_map]. nrm Hr. rewrite <- !app_assoc. exact Hr. }
+    destruct (IH y Hl _ _ Hr') as (items' & r & Hg2 & Hne & Hr2 & Hsn2 & Hres2).
+    exists (x' :: items'), r. split; [eapply sl_cons; [exact Hg|tokg|exact Hg2|exact Hne]|].
+    split; [discriminate|]. split; [exact Hr2|]. split; [cbn [map]; now rewrite Hsn, Hsn2|].
+    cbn [flat_map] in *. rewrite !map_app. rewrite Hres. f_equal. f_equal. rewrite <- !map_app. exact Hres2.
+Qed.
+
+(** items separated by blank lines *)
+Lemma rt_spaced {A} (G : drel A) (pr : A -> list cmd) (snf : A -> A) l :
+  Forall (rt1d G pr snf) l ->
+  forall first rest ts, Forall2 R ts (catoks src [] (spaced pr first l ++ rest)) ->
+  exists items' r, many G (map LTok ts) (map LTok r) items' /\
+                   Forall2 R r (catoks src [] rest) /\ map snf items' = map snf l /\
+                   forall b, map (res1 src') (spaced pr b items') = map (res1 src) (spaced pr b l).
+Proof.
+  induction 1 as [|x l Hx Hl IH]; intros first rest ts H.
+  - exists [], ts. split; [constructor|]. split; [exact H|]. split; reflexivity.
+  - cbn [spaced] in H. assert (H' : Forall2 R ts (catoks src [] (pr x ++ CNewline :: spaced pr false l ++ rest))).
+    { destruct first; nrm H; exact H. }
+    destruct (Hx _ _ H') as (x' & r1 & Hg & Hr & Hsn & Hres). nrm Hr.
+    destruct (IH _ _ _ Hr) as (items' & r & Hg2 & Hr2 & Hsn2 & Hres2).
+    exists (x' :: items'), r. split; [econstructor; eauto|]. split; [exact Hr2|].
+    split; [cbn [map]; now rewrite Hsn, Hsn2|].
+    intros b. cbn [spaced]. rewrite !map_app. rewrite Hres, (Hres2 false). destruct b; reflexivity.
+Qed.
+
+(* ------------------------------------------------------------------ type declarations *)
+
+Ltac dstep H := rewrite catoks_docs in H; cbn [app catoks src_id src_str src_path] in H.
+
+Lemma rt_variant_case c :
+  (wf_ident src (vc_id c) /\ match vc_ty c with Some t => wf_ty src t | None => True end) ->
+  rt1d (g_variant_case d) (fun c => CIndent :: p_variant_case fx c) sn_variant_case c.
+Proof.
+  destruct c as [dcs i oty]. cbn [vc_id vc_ty]. intros [Hi Hty] rest ts H.
+  unfold p_variant_case in H. cbn [vc_docs vc_id vc_ty] in H. nrm H. dstep H. peel H as it r0 Hit.
+  destruct (leaf_ident _ _ _ Hi Hit) as [H1 H2]. destruct (docs_back2 _ _ _ _ Hit) as [D1 D2].
+  destruct oty as [t|].
+  - nrm H. peel H as op r1 Hop. destruct (rt_ty _ Hty _ _ _ H) as (t' & r2 & Hg & Hr & Hsn & Hres).
+    nrm Hr. peel Hr as cp r3 Hcp.
+    exists {| vc_docs := tdocs it; vc_id := mk_ident it; vc_ty := Some t' |}, r3. split.
+    { exists (map LTok (op :: r1)), (mk_ident it), (Some t'). split; [eapply g_id_intro; eauto|]. split; [|reflexivity].
+      eapply opt_some; [tokg|]. do 2 eexists. split; [exact Hg|tokg]. }
+    split; [exact Hr|]. split; [unfold sn_variant_case; cbn [vc_docs vc_id vc_ty option_map]; congruence|].
+    unfold p_variant_case. fin_res.
+  - nrm H.
+    exists {| vc_docs := tdocs it; vc_id := mk_ident it; vc_ty := None |}, r0. split.
+    { exists (map LTok r0), (mk_ident it), None. split; [eapply g_id_intro; eauto|]. split; [constructor|reflexivity]. }
+    split; [exact H|]. split; [unfold sn_variant_case; cbn [vc_docs vc_id vc_ty option_map]; congruence|].
+    unfold p_variant_case. fin_res.
+Qed.
+
+Lemma rt_field f :
+  (wf_ident src (fd_id f) /\ wf_ty src (fd_ty f)) -> rt1d (g_field d) (p_field fx) sn_field f.
+Proof.
+  destruct f as [dcs i t]. cbn [fd_id fd_ty]. intros [Hi Ht] rest ts H.
+  unfold p_field in H. cbn [fd_docs fd_id fd_ty] in H. nrm H. dstep H. peel H as it r0 Hit. peel H as co r1 Hco.
+  destruct (leaf_ident _ _ _ Hi Hit) as [H1 H2]. destruct (docs_back2 _ _ _ _ Hit) as [D1 D2].
+  destruct (rt_ty _ Ht _ _ _ H) as (t' & r2 & Hg & Hr & Hsn & Hres).
+  exists {| fd_docs := tdocs it; fd_id := mk_ident it; fd_ty := t' |}, r2. split.
+  { exists {| nt_id := mk_ident it; nt_ty := t' |}. split; [|reflexivity].
+    exists (map LTok (co :: r1)), (map LTok r1), (mk_ident it), co, t'.
+    split; [eapply g_id_intro; eauto|]. split; [tokg|]. split; [exact Hg|reflexivity]. }
+  split; [exact Hr|]. split; [unfold sn_field; cbn [fd_docs fd_id fd_ty]; congruence|]. unfold p_field. fin_res.
+Qed.
+
+Lemma rt_flag f : wf_ident src (fl_id f) -> rt1d g_flag (p_flag fx) sn_flag f.
+Proof.
+  destruct f as [dcs i]. cbn [fl_id]. intros Hi rest ts H.
+  unfold p_flag in H. cbn [fl_docs fl_id] in H. nrm H. dstep H. peel H as it r0 Hit.
+  destruct (leaf_ident _ _ _ Hi Hit) as [H1 H2]. destruct (docs_back2 _ _ _ _ Hit) as [D1 D2].
+  exists {| fl_docs := tdocs it; fl_id := mk_ident it |}, r0. split.
+  { exists (mk_ident it). split; [eapply g_id_intro; eauto|reflexivity]. }
+  split; [exact H|]. split; [unfold sn_flag; cbn [fl_docs fl_id]; congruence|]. unfold p_flag. fin_res.
+Qed.
+
+Lemma rt_enum_case c : wf_ident src (ec_id c) -> rt1d g_enum_case (p_enum_case fx) sn_enum_case c.
+Proof.
+  destruct c as [dcs i]. cbn [ec_id]. intros Hi rest ts H.
+  unfold p_enum_case in H. cbn [ec_docs ec_id] in H. nrm H. dstep H. peel H as it r0 Hit.
+  destruct (leaf_ident _ _ _ Hi Hit) as [H1 H2]. destruct (docs_back2 _ _ _ _ Hit) as [D1 D2].
+  exists {| ec_docs := tdocs it; ec_id := mk_ident it |}, r0. split.
+  { exists (mk_ident it). split; [eapply g_id_intro; eauto|reflexivity]. }
+  split; [exact H|]. split; [unfold sn_enum_case; cbn [ec_docs ec_id]; congruence|]. unfold p_enum_case. fin_res.
+Qed.
+
+(** [kw id { item, item, }] *)
+Lemma rt_braced {A} kwk (item : drel A) (pr : A -> list cmd) (snf : A -> A)
+    (mk : list doc -> ident -> list A -> item_type_decl) dcs i l :
+  wf_ident src i -> l <> [] -> Forall (rt1d item pr snf) l ->
+  forall rest ts, Forall2 R ts (catoks src [] (p_block fx dcs kwk i (comma_lines pr l) ++ rest)) ->
+  exists dcs' i' l' r,
+    g_braced kwk item mk (map LTok ts) (map LTok r) (mk dcs' i' l') /\ Forall2 R r (catoks src [] rest) /\
+    sn_docs dcs' = sn_docs dcs /\ sn_ident i' = sn_ident i /\ map snf l' = map snf l /\
+    map (res1 src') (p_block fx dcs' kwk i' (comma_lines pr l')) = map (res1 src) (p_block fx dcs kwk i (comma_lines pr l)).
+Proof.
+  intros Hi Hne Hall rest ts H. unfold p_block in H. nrm H. dstep H.
+  peel H as k0 r0 Hk0. peel H as it r1 Hit. peel H as ob r2 Hob.
+  destruct (leaf_ident _ _ _ Hi Hit) as [H1 H2]. destruct (docs_back2 _ _ _ _ Hk0) as [D1 D2].
+  destruct l as [|x l]; [congruence|].
+  destruct (rt_comma_lines item pr snf l x Hall _ _ H) as (l' & r3 & Hg & Hne' & Hr & Hsn & Hres).
+  nrm Hr. peel Hr as cb r4 Hcb.
+  exists (tdocs k0), (mk_ident it), l', r4. split.
+  { exists (map LTok (it :: ob :: r2)), (map LTok (ob :: r2)), (map LTok r2), (map LTok (cb :: r4)), k0, (mk_ident it), ob, cb, l', true.
+    split; [tokg|]. split; [eapply g_id_intro; eauto|]. split; [tokg|]. split; [exact Hg|]. split; [exact Hne'|].
+    split; [tokg|reflexivity]. }
+  split; [exact Hr|]. split; [exact D1|]. split; [exact H1|]. split; [exact Hsn|]. unfold p_block. fin_res.
+Qed.
+
+Lemma rt_type_alias dcs i k :
+  wf_ident src i -> match k with TAFunc f => wf_func_type src f | TAType t => wf_ty src t end ->
+  rt1d (g_type_decl d) (p_item_type_decl fx) sn_item_type_decl (DAlias dcs i k).
+Proof.
+  intros Hi Hk rest ts H. cbn [p_item_type_decl] in H. nrm H. dstep H.
+  peel H as k0 r0 Hk0. peel H as it r1 Hit. peel H as eq r2 Heq.
+  destruct (leaf_ident _ _ _ Hi Hit) as [H1 H2]. destruct (docs_back2 _ _ _ _ Hk0) as [D1 D2].
+  destruct k as [f|t].
+  - destruct (rt_func_type _ Hk _ _ _ H) as (f' & r3 & Hg & Hr & Hsn & Hres). nrm Hr. peel Hr as sc r4 Hsc.
+    exists (DAlias (tdocs k0) (mk_ident it) (TAFunc f')), r4.
+    split; [eapply gd_alias_func; [tokg|eapply g_id_intro; eauto|tokg|exact Hg|tokg]|].
+    split; [exact Hr|]. split; [cbn [sn_item_type_decl]; congruence|]. cbn [p_item_type_decl]. fin_res.
+  - destruct (rt_ty _ Hk _ _ _ H) as (t' & r3 & Hg & Hr & Hsn & Hres). nrm Hr. peel Hr as sc r4 Hsc.
+    exists (DAlias (tdocs k0) (mk_ident it) (TAType t')), r4.
+    split; [eapply gd_alias_type; [tokg|eapply g_id_intro; eauto|tokg|exact Hg|tokg]|].
+    split; [exact Hr|]. split; [cbn [sn_item_type_decl]; congruence|]. cbn [p_item_type_decl]. fin_res.
+Qed.
+
+(** type-decl: every [item_type_decl] except resources *)
+Lemma rt_type_decl x :
+  is_resource x = false -> wf_item_type_decl src x ->
+  rt1d (g_type_decl d) (p_item_type_decl fx) sn_item_type_decl x.
+Proof.
+  destruct x as [dcs i ms|dcs i cs|dcs i fs|dcs i fs|dcs i cs|dcs i k]; intros Hnr Hwf rest ts H; [discriminate| | | | |].
+  - destruct Hwf as (Hi & Hne & Hall). cbn [p_item_type_decl] in H.
+    destruct (rt_braced TVariantKeyword (g_variant_case d) _ sn_variant_case DVariant dcs i cs Hi Hne
+                (All_Forall _ _ _ rt_variant_case Hall) _ _ H) as (dcs' & i' & l' & r & Hg & Hr & E1 & E2 & E3 & E4).
+    exists (DVariant dcs' i' l'), r. split; [apply gd_variant; exact Hg|]. split; [exact Hr|].
+    split; [cbn [sn_item_type_decl]; congruence|exact E4].
+  - destruct Hwf as (Hi & Hne & Hall). cbn [p_item_type_decl] in H.
+    destruct (rt_braced TRecordKeyword (g_field d) _ sn_field DRecord dcs i fs Hi Hne
+                (All_Forall _ _ _ rt_field Hall) _ _ H) as (dcs' & i' & l' & r & Hg & Hr & E1 & E2 & E3 & E4).
+    exists (DRecord dcs' i' l'), r. split; [apply gd_record; exact Hg|]. split; [exact Hr|].
+    split; [cbn [sn_item_type_decl]; congruence|exact E4].
+  - destruct Hwf as (Hi & Hne & Hall). cbn [p_item_type_decl] in H.
+    destruct (rt_braced TFlagsKeyword g_flag _ sn_flag DFlags dcs i fs Hi Hne
+                (All_Forall _ _ _ rt_flag Hall) _ _ H) as (dcs' & i' & l' & r & Hg & Hr & E1 & E2 & E3 & E4).
+    exists (DFlags dcs' i' l'), r. split; [apply gd_flags; exact Hg|]. split; [exact Hr|].
+    split; [cbn [sn_item_type_decl]; congruence|exact E4].
+  - destruct Hwf as (Hi & Hne & Hall). cbn [p_item_type_decl] in H.
+    destruct (rt_braced TEnumKeyword g_enum_case _ sn_enum_case DEnum dcs i cs Hi Hne
+                (All_Forall _ _ _ rt_enum_case Hall) _ _ H) as (dcs' & i' & l' & r & Hg & Hr & E1 & E2 & E3 & E4).
+    exists (DEnum dcs' i' l'), r. split; [apply gd_enum; exact Hg|]. split; [exact Hr|].
+    split; [cbn [sn_item_type_decl]; congruence|exact E4].
+  - destruct Hwf as [Hi Hk]. exact (rt_type_alias dcs i k Hi Hk rest ts H).
+Qed.
+
+Lemma rt_resource_method m :
+  wf_resource_method src m -> rt1d (g_resource_item d) (p_resource_method fx) sn_resource_method m.
+Proof.
+  destruct m as [dcs sp ps|dcs i st f]; intros Hwf rest ts H; cbn [p_resource_method] in H; nrm H; dstep H.
+  - peel H as k0 r0 Hk0. peel H as op r1 Hop. destruct (docs_back2 _ _ _ _ Hk0) as [D1 D2].
+    destruct (rt_params _ Hwf _ _ H) as (ps' & r2 & Hg & Hr & Hsn & Hres). nrm Hr.
+    peel Hr as cp r3 Hcp. peel Hr as sc r4 Hsc.
+    exists (RMConstructor (tdocs k0) (tsp k0) ps'), r4.
+    split; [eapply gri_constructor; [tokg|tokg|exact Hg|tokg|tokg]|].
+    split; [exact Hr|]. split; [cbn [sn_resource_method]; congruence|]. cbn [p_resource_method]. fin_res.
+  - destruct Hwf as [Hi Hf]. peel H as it r0 Hit. peel H as co r1 Hco.
+    destruct (leaf_ident _ _ _ Hi Hit) as [H1 H2]. destruct (docs_back2 _ _ _ _ Hit) as [D1 D2].
+    destruct st.
+    + nrm H. peel H as stk r2 Hstk.
+      destruct (rt_func_type _ Hf _ _ _ H) as (f' & r3 & Hg & Hr & Hsn & Hres). nrm Hr. peel Hr as sc r4 Hsc.
+      exists (RMMethod (tdocs it) (mk_ident it) true f'), r4. split.
+      { eapply (gri_method d (map LTok (it :: co :: stk :: r2)) _ _ _ _ _ (mk_ident it) co (Some tt) f' sc);
+          [eapply g_id_intro; eauto|tokg|eapply opt_some; [tokg|reflexivity]|exact Hg|tokg]. }
+      split; [exact Hr|]. split; [cbn [sn_resource_method]; congruence|]. cbn [p_resource_method]. fin_res.
+    + nrm H.
+      destruct (rt_func_type _ Hf _ _ _ H) as (f' & r3 & Hg & Hr & Hsn & Hres). nrm Hr. peel Hr as sc r4 Hsc.
+      exists (RMMethod (tdocs it) (mk_ident it) false f'), r4. split.
+      { eapply (gri_method d (map LTok (it :: co :: r1)) _ _ _ _ _ (mk_ident it) co None f' sc);
+          [eapply g_id_intro; eauto|tokg|constructor|exact Hg|tokg]. }
+      split; [exact Hr|]. split; [cbn [sn_resource_method]; congruence|]. cbn [p_resource_method]. fin_res.
+Qed.
+
+Lemma rt_item_type_decl x :
+  wf_item_type_decl src x -> rt1d (g_item_type_decl d) (p_item_type_decl fx) sn_item_type_decl x.
+Proof.
+  intros Hwf. destruct (is_resource x) eqn:E.
+  - destruct x as [dcs i ms| | | | |]; try discriminate E. destruct Hwf as [Hi Hms]. intros rest ts H.
+    cbn [p_item_type_decl] in H. unfold p_block in H. nrm H. dstep H.
+    peel H as k0 r0 Hk0. peel H as it r1 Hit. peel H as ob r2 Hob.
+    destruct (leaf_ident _ _ _ Hi Hit) as [H1 H2]. destruct (docs_back2 _ _ _ _ Hk0) as [D1 D2].
+    destruct (rt_spaced (g_resource_item d) (p_resource_method fx) sn_resource_method ms
+                (All_Forall _ _ _ rt_resource_method Hms) _ _ _ H) as (ms' & r3 & Hg & Hr & Hsn & Hres).
+    nrm Hr. peel Hr as cb r4 Hcb.
+    exists (DResource (tdocs k0) (mk_ident it) ms'), r4.
+    split; [eapply gi_resource_body; [tokg|eapply g_id_intro; eauto|tokg|exact Hg|tokg]|].
+    split; [exact Hr|]. split; [cbn [sn_item_type_decl]; congruence|].
+    cbn [p_item_type_decl]. unfold p_block. specialize (Hres true). fin_res.
+  - intros rest ts H. destruct (rt_type_decl x E Hwf rest ts H) as (x' & r & Hg & Hrest).
+    exists x', r. split; [apply gi_type_decl; exact Hg|exact Hrest].
+Qed.
+
+(* ------------------------------------------------------------------ interfaces and worlds *)
+
+Lemma rt_use_item u :
+  (wf_ident src (ui_id u) /\ match ui_as u with Some a => wf_ident src a | None => True end) ->
+  rt1 g_use_item p_use_item sn_use_item u.
+Proof.
+  destruct u as [i oa]. cbn [ui_id ui_as]. intros [Hi Ha] docs rest ts H.
+  unfold p_use_item in H. cbn [ui_id ui_as] in H. nrm H. peel H as it r0 Hit.
+  destruct (leaf_ident _ _ _ Hi Hit) as [H1 H2]. destruct oa as [a|].
+  - nrm H. peel H as ask r1 Hask. peel H as at_ r2 Hat. destruct (leaf_ident _ _ _ Ha Hat) as [H3 H4].
+    exists {| ui_id := mk_ident it; ui_as := Some (mk_ident at_) |}, r2. split.
+    { exists (map LTok (ask :: at_ :: r2)), (mk_ident it), (Some (mk_ident at_)). split; [eapply g_id_intro; eauto|].
+      split; [eapply opt_some; [tokg|eapply g_id_intro; eauto]|reflexivity]. }
+    split; [exact H|]. split; [unfold sn_use_item; cbn [ui_id ui_as option_map]; congruence|]. unfold p_use_item. fin_res.
+  - nrm H. exists {| ui_id := mk_ident it; ui_as := None |}, r0. split.
+    { exists (map LTok r0), (mk_ident it), None. split; [eapply g_id_intro; eauto|]. split; [constructor|reflexivity]. }
+    split; [exact H|]. split; [unfold sn_use_item; cbn [ui_id ui_as option_map]; congruence|]. unfold p_use_item. fin_res.
+Qed.
+
+Lemma rt_use u : wf_use src u -> rt1d (g_use d) (p_use fx) sn_use u.
+Proof.
+  destruct u as [dcs pth items]. intros [Hp Hitems] rest ts H. cbn [u_path u_items] in *.
+  unfold p_use in H. cbn [u_docs u_path u_items] in H. nrm H. dstep H. peel H as k0 r0 Hk0.
+  destruct (docs_back2 _ _ _ _ Hk0) as [D1 D2].
+  assert (Hpath : exists pth' r1, g_use_path (map LTok r0) (map LTok r1) pth' /\
+            Forall2 R r1 (catoks src [] (CTok TDot :: CTok TOpenBrace :: CSp :: comma_sep p_use_item true items ++
+                                          CSp :: CTok TCloseBrace :: CTok TSemicolon :: rest)) /\
+            sn_use_path pth' = sn_use_path pth /\ map (res1 src') (p_use_path pth') = map (res1 src) (p_use_path pth)).
+  { destruct pth as [pp|i]; cbn [p_use_path] in H; nrm H.
+    - peel H as pt r1 Hpt. destruct (leaf_package_path _ _ _ Hp Hpt) as (p' & E0 & E1 & E2).
+      exists (UPPackage p'), r1. split; [apply gup_package; exists pt; split; [tokg|exact E0]|]. split; [exact H|].
+      split; [cbn [sn_use_path]; congruence|]. cbn [p_use_path]. fin_res.
+    - peel H as it r1 Hit. destruct (leaf_ident _ _ _ Hp Hit) as [E1 E2].
+      exists (UPIdent (mk_ident it)), r1. split; [apply gup_id; eapply g_id_intro; eauto|]. split; [exact H|].
+      split; [cbn [sn_use_path]; congruence|]. cbn [p_use_path]. fin_res. }
+  destruct Hpath as (pth' & r1 & Hgp & Hr & Hsnp & Hresp). nrm Hr. peel Hr as dt r2 Hdt. peel Hr as ob r3 Hob.
+  destruct (rt_comma_sep g_use_item p_use_item sn_use_item items (All_Forall _ _ _ rt_use_item Hitems) _ _ Hr)
+    as (items' & r4 & Hg & Hr2 & Hsn & Hres).
+  nrm Hr2. peel Hr2 as cb r5 Hcb. peel Hr2 as sc r6 Hsc.
+  exists {| u_docs := tdocs k0; u_path := pth'; u_items := items' |}, r6. split.
+  { do 6 eexists. exists k0, pth', dt, ob, cb, sc, items', false.
+    split; [tokg|]. split; [exact Hgp|]. split; [tokg|]. split; [tokg|]. split; [exact Hg|].
+    split; [right; reflexivity|]. split; [tokg|]. split; [tokg|reflexivity]. }
+  split; [exact Hr2|]. split; [unfold sn_use; cbn [u_docs u_path u_items]; congruence|]. unfold p_use. fin_res.
+Qed.
+
+Lemma rt_func_type_ref t :
+  match t with FRFunc f => wf_func_type src f | FRIdent j => wf_ident src j end ->
+  rt1 (g_func_type_ref d) p_func_type_ref sn_func_type_ref t.
+Proof.
+  destruct t as [f|j]; intros Hwf docs rest ts H; cbn [p_func_type_ref] in H.
+  - destruct (rt_func_type _ Hwf _ _ _ H) as (f' & r & Hg & Hr & Hsn & Hres).
+    exists (FRFunc f'), r. split; [apply gfr_func; exact Hg|]. split; [exact Hr|].
+    split; [cbn [sn_func_type_ref]; congruence|exact Hres].
+  - nrm H. peel H as it r0 Hit. destruct (leaf_ident _ _ _ Hwf Hit) as [E1 E2].
+    exists (FRIdent (mk_ident it)), r0. split; [apply gfr_id; eapply g_id_intro; eauto|]. split; [exact H|].
+    split; [cbn [sn_func_type_ref]; congruence|]. cbn [p_func_type_ref]. fin_res.
+Qed.
+
+Lemma rt_interface_item it : wf_interface_item src it -> rt1d (g_interface_item d) (p_interface_item fx) sn_interface_item it.
+Proof.
+  destruct it as [u|x|dcs i t]; intros Hwf rest ts H; cbn [p_interface_item] in H.
+  - destruct (rt_use _ Hwf _ _ H) as (u' & r & Hg & Hr & Hsn & Hres).
+    exists (IIUse u'), r. split; [apply gii_use; exact Hg|]. split; [exact Hr|].
+    split; [cbn [sn_interface_item]; congruence|exact Hres].
+  - destruct (rt_item_type_decl _ Hwf _ _ H) as (x' & r & Hg & Hr & Hsn & Hres).
+    exists (IIType x'), r. split; [apply gii_type; exact Hg|]. split; [exact Hr|].
+    split; [cbn [sn_interface_item]; congruence|exact Hres].
+  - destruct Hwf as [Hi Ht]. nrm H. dstep H. peel H as itk r0 Hit. peel H as co r1 Hco.
+    destruct (leaf_ident _ _ _ Hi Hit) as [H1 H2]. destruct (docs_back2 _ _ _ _ Hit) as [D1 D2].
+    destruct (rt_func_type_ref _ Ht _ _ _ H) as (t' & r2 & Hg & Hr & Hsn & Hres). nrm Hr. peel Hr as sc r3 Hsc.
+    exists (IIExport (tdocs itk) (mk_ident itk) t'), r3.
+    split; [eapply gii_export; [eapply g_id_intro; eauto|tokg|exact Hg|tokg]|].
+    split; [exact Hr|]. split; [cbn [sn_interface_item]; congruence|]. cbn [p_interface_item]. fin_res.
+Qed.
+
+(** [{ item* }] *)
+Lemma rt_interface_body items :
+  All (wf_interface_item src) items ->
+  forall docs rest ts,
+    Forall2 R ts (catoks src docs (CTok TOpenBrace :: p_items (p_interface_item fx) items ++ rest)) ->
+    exists items' r, g_interface_body d (map LTok ts) (map LTok r) items' /\ Forall2 R r (catoks src [] rest) /\
+                     map sn_interface_item items' = map sn_interface_item items /\
+                     map (res1 src') (p_items (p_interface_item fx) items') =
+                     map (res1 src) (p_items (p_interface_item fx) items).
+Proof.
+  intros Hall docs rest ts H. unfold p_items in H. nrm H. peel H as ob r0 Hob.
+  destruct (rt_spaced (g_interface_item d) (p_interface_item fx) sn_interface_item items
+              (All_Forall _ _ _ rt_interface_item Hall) _ _ _ H) as (items' & r1 & Hg & Hr & Hsn & Hres).
+  nrm Hr. peel Hr as cb r2 Hcb.
+  exists items', r2. split; [do 2 eexists; exists ob, cb; split; [tokg|]; split; [exact Hg|tokg]|].
+  split; [exact Hr|]. split; [exact Hsn|]. unfold p_items. specialize (Hres true). fin_res.
+Qed.
+
+Lemma rt_inline_interface items :
+  All (wf_interface_item src) items ->
+  forall docs rest ts, Forall2 R ts (catoks src docs (p_inline_interface fx items ++ rest)) ->
+    exists items' r, g_inline_interface d (map LTok ts) (map LTok r) items' /\ Forall2 R r (catoks src [] rest) /\
+                     map sn_interface_item items' = map sn_interface_item items /\
+                     map (res1 src') (p_inline_interface fx items') = map (res1 src) (p_inline_interface fx items).
+Proof.
+  intros Hall docs rest ts H. unfold p_inline_interface in H. nrm H. peel H as k0 r0 Hk0.
+  destruct (rt_interface_body _ Hall _ _ _ H) as (items' & r & Hg & Hr & Hsn & Hres).
+  exists items', r. split; [do 1 eexists; exists k0; split; [tokg|exact Hg]|]. split; [exact Hr|]. split; [exact Hsn|].
+  unfold p_inline_interface. fin_res.
+Qed.
+
+Lemma rt_extern_type t : wf_extern_type src t -> rt1 (g_extern_type d) (p_extern_type fx) sn_extern_type t.
+Proof.
+  destruct t as [i|f|items]; intros Hwf docs rest ts H; cbn [p_extern_type] in H.
+  - nrm H. peel H as it r0 Hit. destruct (leaf_ident _ _ _ Hwf Hit) as [E1 E2].
+    exists (ETIdent (mk_ident it)), r0. split; [apply get_id; eapply g_id_intro; eauto|]. split; [exact H|].
+    split; [cbn [sn_extern_type]; congruence|]. cbn [p_extern_type]. fin_res.
+  - destruct (rt_func_type _ Hwf _ _ _ H) as (f' & r & Hg & Hr & Hsn & Hres).
+    exists (ETFunc f'), r. split; [apply get_func; exact Hg|]. split; [exact Hr|].
+    split; [cbn [sn_extern_type]; congruence|exact Hres].
+  - destruct (rt_inline_interface _ Hwf _ _ _ H) as (items' & r & Hg & Hr & Hsn & Hres).
+    exists (ETInterface items'), r. split; [apply get_interface; exact Hg|]. split; [exact Hr|].
+    split; [cbn [sn_extern_type]; congruence|exact Hres].
+Qed.
+
+Lemma rt_world_item_path p :
+  wf_world_item_path src p -> rt1 (g_world_item_path d) (p_world_item_path fx) sn_world_item_path p.
+Proof.
+  destruct p as [i t|pp|i]; intros Hwf docs rest ts H; cbn [p_world_item_path] in H; nrm H.
+  - destruct Hwf as [Hi Ht]. peel H as it r0 Hit. peel H as co r1 Hco.
+    destruct (leaf_ident _ _ _ Hi Hit) as [E1 E2].
+    destruct (rt_extern_type _ Ht _ _ _ H) as (t' & r & Hg & Hr & Hsn & Hres).
+    exists (WPNamed (mk_ident it) t'), r. split; [eapply gwp_named; [eapply g_id_intro; eauto|tokg|exact Hg]|].
+    split; [exact Hr|]. split; [cbn [sn_world_item_path]; congruence|]. cbn [p_world_item_path]. fin_res.
+  - peel H as pt r1 Hpt. destruct (leaf_package_path _ _ _ Hwf Hpt) as (p' & E0 & E1 & E2).
+    exists (WPPackage p'), r1. split; [apply gwp_package; exists pt; split; [tokg|exact E0]|]. split; [exact H|].
+    split; [cbn [sn_world_item_path]; congruence|]. cbn [p_world_item_path]. fin_res.
+  - peel H as it r0 Hit. destruct (leaf_ident _ _ _ Hwf Hit) as [E1 E2].
+    exists (WPIdent (mk_ident it)), r0. split; [apply gwp_id; eapply g_id_intro; eauto|]. split; [exact H|].
+    split; [cbn [sn_world_item_path]; congruence|]. cbn [p_world_item_path]. fin_res.
+Qed.
+
+Lemma rt_include_item it :
+  (wf_ident src (ii_from it) /\ wf_ident src (ii_to it)) -> rt1d g_include_item p_include_item sn_include_item it.
+Proof.
+  destruct it as [a b]. cbn [ii_from ii_to]. intros [Ha Hb] rest ts H.
+  unfold p_include_item in H. cbn [ii_from ii_to] in H. nrm H.
+  peel H as ta r0 Hta. peel H as ask r1 Hask. peel H as tb r2 Htb.
+  destruct (leaf_ident _ _ _ Ha Hta) as [E1 E2]. destruct (leaf_ident _ _ _ Hb Htb) as [E3 E4].
+  exists {| ii_from := mk_ident ta; ii_to := mk_ident tb |}, r2. split.
+  { do 2 eexists. exists (mk_ident ta), ask, (mk_ident tb). split; [eapply g_id_intro; eauto|]. split; [tokg|].
+    split; [eapply g_id_intro; eauto|reflexivity]. }
+  split; [exact H|]. split; [unfold sn_include_item; cbn [ii_from ii_to]; congruence|]. unfold p_include_item. fin_res.
+Qed.
+
+Lemma rt_world_item w : wf_world_item src w -> rt1d (g_world_item d) (p_world_item fx) sn_world_item w.
+Proof.
+  destruct w as [u|x|dcs p|dcs p|dcs wr items]; intros Hwf rest ts H; cbn [p_world_item] in H.
+  - destruct (rt_use _ Hwf _ _ H) as (u' & r & Hg & Hr & Hsn & Hres).
+    exists (WIUse u'), r. split; [apply gwi_use; exact Hg|]. split; [exact Hr|].
+    split; [cbn [sn_world_item]; congruence|exact Hres].
+  - destruct (rt_item_type_decl _ Hwf _ _ H) as (x' & r & Hg & Hr & Hsn & Hres).
+    exists (WIType x'), r. split; [apply gwi_type; exact Hg|]. split; [exact Hr|].
+    split; [cbn [sn_world_item]; congruence|exact Hres].
+  - nrm H. dstep H. peel H as k0 r0 Hk0. destruct (docs_back2 _ _ _ _ Hk0) as [D1 D2].
+    destruct (rt_world_item_path _ Hwf _ _ _ H) as (p' & r1 & Hg & Hr & Hsn & Hres). nrm Hr. peel Hr as sc r2 Hsc.
+    exists (WIImport (tdocs k0) p'), r2. split; [eapply gwi_import; [tokg|exact Hg|tokg]|]. split; [exact Hr|].
+    split; [cbn [sn_world_item]; congruence|]. cbn [p_world_item]. fin_res.
+  - nrm H. dstep H. peel H as k0 r0 Hk0. destruct (docs_back2 _ _ _ _ Hk0) as [D1 D2].
+    destruct (rt_world_item_path _ Hwf _ _ _ H) as (p' & r1 & Hg & Hr & Hsn & Hres). nrm Hr. peel Hr as sc r2 Hsc.
+    exists (WIExport (tdocs k0) p'), r2. split; [eapply gwi_export; [tokg|exact Hg|tokg]|]. split; [exact Hr|].
+    split; [cbn [sn_world_item]; congruence|]. cbn [p_world_item]. fin_res.
+  - destruct Hwf as [Hw Hitems]. nrm H. dstep H. peel H as k0 r0 Hk0. destruct (docs_back2 _ _ _ _ Hk0) as [D1 D2].
+    assert (Hwr : exists wr' r1, g_world_ref (map LTok r0) (map LTok r1) wr' /\
+              Forall2 R r1 (catoks src [] (match items with
+                                           | [] => []
+                                           | _ :: _ => [CSp; CTok TWithKeyword; CSp; CTok TOpenBrace; CNewline; CInc] ++
+                                                       comma_lines p_include_item items ++ [CDec; CIndent; CTok TCloseBrace]
+                                           end ++ CTok TSemicolon :: rest)) /\
+              sn_world_ref wr' = sn_world_ref wr /\ map (res1 src') (p_world_ref wr') = map (res1 src) (p_world_ref wr)).
+    { destruct wr as [i|pp]; cbn [p_world_ref] in H; nrm H.
+      - peel H as it r1 Hit. destruct (leaf_ident _ _ _ Hw Hit) as [E1 E2].
+        exists (WRIdent (mk_ident it)), r1. split; [apply gwr_id; eapply g_id_intro; eauto|]. split; [exact H|].
+        split; [cbn [sn_world_ref]; congruence|]. cbn [p_world_ref]. fin_res.
+      - peel H as pt r1 Hpt. destruct (leaf_package_path _ _ _ Hw Hpt) as (p' & E0 & E1 & E2).
+        exists (WRPackage p'), r1. split; [apply gwr_package; exists pt; split; [tokg|exact E0]|]. split; [exact H|].
+        split; [cbn [sn_world_ref]; congruence|]. cbn [p_world_ref]. fin_res. }
+    destruct Hwr as (wr' & r1 & Hgw & Hr & Hsnw & Hresw).
+    destruct items as [|x l].
+    + nrm Hr. peel Hr as sc r2 Hsc.
+      exists (WIInclude (tdocs k0) wr' []), r2. split.
+      { eapply (gwi_include d (map LTok (k0 :: r0)) _ _ _ _ k0 wr' None sc); [tokg|exact Hgw|constructor|tokg]. }
+      split; [exact Hr|]. split; [cbn [sn_world_item]; congruence|]. cbn [p_world_item]. fin_res.
+    + nrm Hr. peel Hr as wk r2 Hwk. peel Hr as ob r3 Hob.
+      destruct (rt_comma_lines g_include_item p_include_item sn_include_item l x
+                  (All_Forall _ _ _ rt_include_item Hitems) _ _ Hr) as (l' & r4 & Hg & Hne & Hr2 & Hsn & Hres).
+      nrm Hr2. peel Hr2 as cb r5 Hcb. peel Hr2 as sc r6 Hsc.
+      exists (WIInclude (tdocs k0) wr' l'), r6. split.
+      { eapply (gwi_include d (map LTok (k0 :: r0)) _ _ _ _ k0 wr' (Some l') sc); [tokg|exact Hgw| |tokg].
+        eapply opt_some; [tokg|]. do 2 eexists. exists ob, cb, true. split; [tokg|]. split; [exact Hg|].
+        split; [left; exact Hne|tokg]. }
+      split; [exact Hr2|]. split; [cbn [sn_world_item]; congruence|].
+      cbn [p_world_item]. destruct l' as [|x' l'']; [congruence|]. fin_res.
+Qed.
+
+Lemma rt_type_statement t : wf_type_statement src t -> rt1d (g_type_statement d) (p_type_statement fx) sn_type_statement t.
+Proof.
+  destruct t as [dcs i items|dcs i items|x]; intros Hwf rest ts H; cbn [p_type_statement] in H.
+  - destruct Hwf as [Hi Hitems]. nrm H. dstep H. peel H as k0 r0 Hk0. peel H as it r1 Hit.
+    destruct (leaf_ident _ _ _ Hi Hit) as [H1 H2]. destruct (docs_back2 _ _ _ _ Hk0) as [D1 D2].
+    destruct (rt_interface_body _ Hitems _ _ _ H) as (items' & r & Hg & Hr & Hsn & Hres).
+    exists (TSInterface (tdocs k0) (mk_ident it) items'), r.
+    split; [eapply gts_interface; [tokg|eapply g_id_intro; eauto|exact Hg]|]. split; [exact Hr|].
+    split; [cbn [sn_type_statement]; congruence|]. cbn [p_type_statement]. fin_res.
+  - destruct Hwf as [Hi Hitems]. unfold p_items in H. nrm H. dstep H. peel H as k0 r0 Hk0. peel H as it r1 Hit. peel H as ob r2 Hob.
+    destruct (leaf_ident _ _ _ Hi Hit) as [H1 H2]. destruct (docs_back2 _ _ _ _ Hk0) as [D1 D2].
+    destruct (rt_spaced (g_world_item d) (p_world_item fx) sn_world_item items
+                (All_Forall _ _ _ rt_world_item Hitems) _ _ _ H) as (items' & r3 & Hg & Hr & Hsn & Hres).
+    nrm Hr. peel Hr as cb r4 Hcb.
+    exists (TSWorld (tdocs k0) (mk_ident it) items'), r4.
+    split; [eapply gts_world; [tokg|eapply g_id_intro; eauto|tokg|exact Hg|tokg]|]. split; [exact Hr|].
+    split; [cbn [sn_type_statement]; congruence|]. cbn [p_type_statement]. unfold p_items. specialize (Hres true). fin_res.
+  - destruct Hwf as [Hnr Hx]. destruct (rt_type_decl _ Hnr Hx _ _ H) as (x' & r & Hg & Hr & Hsn & Hres).
+    exists (TSType x'), r. split; [apply gts_type; exact Hg|]. split; [exact Hr|].
+    split; [cbn [sn_type_statement]; congruence|exact Hres].
+Qed.
+
+(* ------------------------------------------------------------------ expressions *)
+
+Lemma args_ok_impl args tr : args_ok impl_flags args tr = true.
+Proof. destruct args as [|[] [|]]; destruct tr; reflexivity. Qed.
+
+Lemma rt_postfix p : wf_postfix src p -> rt1d g_postfix p_postfix sn_postfix p.
+Proof.
+  destruct p as [sp i|sp s0]; intros Hwf rest ts H; cbn [p_postfix] in H; nrm H.
+  - peel H as dt r0 Hdt. peel H as it r1 Hit. destruct (leaf_ident _ _ _ Hwf Hit) as [E1 E2].
+    exists (PAccess (span_join (tsp dt) (id_span (mk_ident it))) (mk_ident it)), r1.
+    split; [eapply gpf_access; [tokg|eapply g_id_intro; eauto]|]. split; [exact H|].
+    split; [cbn [sn_postfix]; congruence|]. cbn [p_postfix]. fin_res.
+  - peel H as ob r0 Hob. peel H as st r1 Hst. peel H as cb r2 Hcb.
+    destruct (leaf_strlit _ _ _ Hwf Hst) as (s' & E0 & E1 & E2).
+    exists (PNamedAccess (span_join (tsp ob) (tsp cb)) s'), r2.
+    split; [eapply gpf_named; [tokg|exists st; split; [tokg|exact E0]|tokg]|]. split; [exact H|].
+    split; [cbn [sn_postfix]; congruence|]. cbn [p_postfix]. fin_res.
+Qed.
+
+Lemma rt_postfixes post :
+  All (wf_postfix src) post ->
+  forall rest ts, Forall2 R ts (catoks src [] (flat_map p_postfix post ++ rest)) ->
+  exists post' r, many g_postfix (map LTok ts) (map LTok r) post' /\ Forall2 R r (catoks src [] rest) /\
+                  map sn_postfix post' = map sn_postfix post /\
+                  map (res1 src') (flat_map p_postfix post') = map (res1 src) (flat_map p_postfix post).
+Proof.
+  induction post as [|p post IH]; intros Hall rest ts H.
+  - exists [], ts. split; [constructor|]. split; [exact H|]. split; reflexivity.
+  - destruct Hall as [Hp Hall]. cbn [flat_map] in H. nrm H.
+    destruct (rt_postfix _ Hp _ _ H) as (p' & r1 & Hg & Hr & Hsn & Hres).
+    destruct (IH Hall _ _ Hr) as (post' & r & Hg2 & Hr2 & Hsn2 & Hres2).
+    exists (p' :: post'), r. split; [econstructor; eauto|]. split; [exact Hr2|].
+    split; [cbn [map]; congruence|]. cbn [flat_map]. rewrite !map_app. congruence.
+Qed.
+
+(** One argument without its separator, one argument line, the argument lines of [new_expr]. *)
+Definition p_arg0 (a : inst_arg) : list cmd :=
+  match a with
+  | AInferred i => [src_id i]
+  | ASpread i => [CTok TEllipsis; src_id i]
+  | ANamed n x => p_arg_name n ++ [CTok TColon; CSp] ++ p_expr fx x
+  | AFill _ => [CTok TEllipsis]
+  end.
+Definition p_arg_line (a : inst_arg) (last : bool) : list cmd :=
+  p_arg0 a ++ (if is_fill a && last then [] else [CTok TComma]).
+Definition nil_args (l : list inst_arg) : bool := match l with [] => true | _ => false end.
+Fixpoint p_args (l : list inst_arg) : list cmd :=
+  match l with
+  | [] => []
+  | a :: r => CIndent :: p_arg_line a (nil_args r) ++ CNewline :: p_args r
+  end.
+
+Lemma p_args_cons a r : p_args (a :: r) = CIndent :: p_arg_line a (nil_args r) ++ CNewline :: p_args r.
+Proof. reflexivity. Qed.
+
+Definition p_new_args (args : list inst_arg) : list cmd :=
+  match args with
+  | [] => [CTok TCloseBrace]
+  | [AFill _] => [CSp; CTok TEllipsis; CSp; CTok TCloseBrace]
+  | _ => [CNewline; CInc] ++ p_args args ++ [CDec; CIndent; CTok TCloseBrace]
+  end.
+
+Lemma p_new_eq sp pkg args :
+  p_primary fx (PNew sp pkg args) =
+  [CTok TNewKeyword; CSp; CSrc TPackageName (pn_span pkg); CSp; CTok TOpenBrace] ++ p_new_args args.
+Proof.
+  cbn [p_primary]. f_equal.
+  assert (E : forall l,
+    (fix go (l : list inst_arg) : list cmd :=
+       match l with
+       | [] => []
+       | a :: r =>
+           [CIndent] ++
+           match a with
+           | AFill _ => CTok TEllipsis ::
+                        (if fx_fill_comma fx then match r with [] => [] | _ :: _ => [CTok TComma] end else [])
+           | _ => p_arg fx a
+           end ++ [CNewline] ++ go r
+       end) l = p_args l).
+  { induction l as [|a r IH]; [reflexivity|]. rewrite IH. cbn [p_args app]. f_equal. unfold p_arg_line.
+    destruct a; cbn [p_arg p_arg0 is_fill andb app fx_fill_comma fx repaired]; repeat (progress (rewrite <- ?app_assoc; cbn [app])); try reflexivity.
+    destruct r; reflexivity. }
+  rewrite E. unfold p_new_args. destruct args as [|a [|b l]]; [reflexivity| |]; destruct a; reflexivity.
+Qed.
+
+Lemma sn_new_eq sp pkg args : sn_primary (PNew sp pkg args) = PNew span0 (sn_package_name pkg) (map sn_arg args).
+Proof. reflexivity. Qed.
+
+Lemma sn_arg_fill a' a : sn_arg a' = sn_arg a -> is_fill a' = is_fill a.
+Proof. destruct a', a; cbn; intros E; try reflexivity; discriminate E. Qed.
+
+Lemma map_sn_nil_args l' l : map sn_arg l' = map sn_arg l -> nil_args l' = nil_args l.
+Proof. destruct l', l; cbn; intros E; try reflexivity; discriminate E. Qed.
+
+Lemma rt_args l : forall a,
+  Forall (rt1 (g_arg d) p_arg0 sn_arg) (a :: l) ->
+  forall rest ts, Forall2 R ts (catoks src [] (p_args (a :: l) ++ rest)) ->
+  exists l' r tr, seplist (g_arg d) (map LTok ts) (map LTok r) (l', tr) /\ l' <> [] /\
+                  Forall2 R r (catoks src [] rest) /\ map sn_arg l' = map sn_arg (a :: l) /\
+                  map (res1 src') (p_args l') = map (res1 src) (p_args (a :: l)).
+Proof.
+  induction l as [|b l IH]; intros a Hall rest ts H; inversion Hall as [|? ? Ha Hl]; subst;
+    cbn [p_args nil_args] in H; unfold p_arg_line in H.
+  - (* last argument *)
+    destruct (is_fill a) eqn:Ef; cbn [andb] in H; nrm H.
+    + destruct (Ha _ _ _ H) as (a' & r1 & Hg & Hr & Hsn & Hres). nrm Hr.
+      exists [a'], r1, false. split; [apply sl_one; exact Hg|]. split; [discriminate|]. split; [exact Hr|].
+      split; [cbn [map]; congruence|]. cbn [p_args nil_args]. unfold p_arg_line.
+      rewrite (sn_arg_fill _ _ Hsn), Ef. cbn [andb]. fin_res.
+    + destruct (Ha _ _ _ H) as (a' & r1 & Hg & Hr & Hsn & Hres). nrm Hr. peel Hr as cm r2 Hcm.
+      exists [a'], r2, true. split; [eapply sl_trail; [exact Hg|tokg]|]. split; [discriminate|]. split; [exact Hr|].
+      split; [cbn [map]; congruence|]. cbn [p_args nil_args]. unfold p_arg_line.
+      rewrite (sn_arg_fill _ _ Hsn), Ef. cbn [andb]. fin_res.
+  - rewrite andb_false_r in H. nrm H.
+    destruct (Ha _ _ _ H) as (a' & r1 & Hg & Hr & Hsn & Hres). nrm Hr. peel Hr as cm r2 Hcm.
+    assert (Hr' : Forall2 R r2 (catoks src [] (p_args (b :: l) ++ rest))).
+    { cbn [p_args]. unfold p_arg_line. repeat (progress (repeat (rewrite <- app_assoc); cbn [app catoks])). exact Hr. }
+    destruct (IH b Hl _ _ Hr') as (l' & r & tr & Hg2 & Hne & Hr2 & Hsn2 & Hres2).
+    exists (a' :: l'), r, tr. split; [eapply sl_cons; [exact Hg|tokg|exact Hg2|exact Hne]|].
+    split; [discriminate|]. split; [exact Hr2|]. split; [cbn [map] in *; congruence|].
+    rewrite (p_args_cons a' l'), (p_args_cons a (b :: l)). unfold p_arg_line. rewrite (map_sn_nil_args _ _ Hsn2). cbn [nil_args].
+    rewrite !andb_false_r. fin_res.
+Qed.
+
+Lemma wf_args_All args :
+  (fix all (l : list inst_arg) : Prop := match l with [] => True | a :: r => wf_arg src a /\ all r end) args ->
+  All (wf_arg src) args.
+Proof. induction args as [|a l IH]; cbn; [auto|]. intros [H1 H2]. split; auto. Qed.
+
+Lemma rt_arg_name n :
+  match n with ANIdent i => wf_ident src i | ANString s => wf_strlit src s end ->
+  rt1 g_arg_name p_arg_name sn_arg_name n.
+Proof.
+  destruct n as [i|s0]; intros Hwf docs rest ts H; cbn [p_arg_name] in H; nrm H.
+  - peel H as it r0 Hit. destruct (leaf_ident _ _ _ Hwf Hit) as [E1 E2].
+    exists (ANIdent (mk_ident it)), r0. split; [apply gan_id; eapply g_id_intro; eauto|]. split; [exact H|].
+    split; [cbn [sn_arg_name]; congruence|]. cbn [p_arg_name]. fin_res.
+  - peel H as st r0 Hst. destruct (leaf_strlit _ _ _ Hwf Hst) as (s' & E0 & E1 & E2).
+    exists (ANString s'), r0. split; [apply gan_string; exists st; split; [tokg|exact E0]|]. split; [exact H|].
+    split; [cbn [sn_arg_name]; congruence|]. cbn [p_arg_name]. fin_res.
+Qed.
+
+Lemma rt_expr_all :
+  (forall x, wf_expr src x -> rt1 (g_expr d) (p_expr fx) sn_expr x).
+Proof.
+  apply (expr_ind' (fun x => wf_expr src x -> rt1 (g_expr d) (p_expr fx) sn_expr x)
+                   (fun p => wf_primary src p -> rt1 (g_primary d) (p_primary fx) sn_primary p)
+                   (fun a => wf_arg src a -> rt1 (g_arg d) p_arg0 sn_arg a)).
+  - (* expr *)
+    intros sp p post IHp [Hp Hpost] docs rest ts H. cbn [p_expr] in H. nrm H.
+    destruct (IHp Hp _ _ _ H) as (p' & r1 & Hg & Hr & Hsn & Hres).
+    destruct (rt_postfixes _ Hpost _ _ Hr) as (post' & r & Hg2 & Hr2 & Hsn2 & Hres2).
+    exists (mk_expr p' post'), r. split; [econstructor; eauto|]. split; [exact Hr2|].
+    split; [unfold mk_expr; cbn [sn_expr]; congruence|]. unfold mk_expr. cbn [p_expr]. rewrite !map_app. congruence.
+  - (* new *)
+    intros sp pkg args IHargs [Hpkg Hargs] docs rest ts H. apply wf_args_All in Hargs.
+    rewrite p_new_eq in H. nrm H. peel H as k0 r0 Hk0. peel H as pt r1 Hpt. peel H as ob r2 Hob.
+    destruct (leaf_package_name _ _ _ Hpkg Hpt) as (pkg' & E0 & E1 & E2).
+    assert (Hf : Forall (rt1 (g_arg d) p_arg0 sn_arg) args).
+    { clear H. induction IHargs as [|a l Ha _ IHl]; [constructor|]. destruct Hargs as [H1 H2]. constructor; auto. }
+    assert (Hbody : exists args' r3 tr cb r4,
+              g_args d (map LTok r2) (map LTok (cb :: r4)) (args', tr) /\ R cb (TCloseBrace, fixed_text TCloseBrace, []) /\
+              Forall2 R r4 (catoks src [] rest) /\ r3 = cb :: r4 /\ map sn_arg args' = map sn_arg args /\
+              map (res1 src') (p_new_args args') = map (res1 src) (p_new_args args)).
+    { unfold p_new_args in H. destruct args as [|a [|b l]].
+      - nrm H. peel H as cb r4 Hcb. exists [], (cb :: r4), false, cb, r4.
+        split; [constructor|]. split; [exact Hcb|]. split; [exact H|]. split; [reflexivity|]. split; reflexivity.
+      - destruct a as [i|i|n x|fsp].
+        1-3: nrm H;
+          match type of H with Forall2 R _ (catoks _ _ (p_args [?a] ++ _)) =>
+            destruct (rt_args [] a Hf _ _ H) as (l' & r3 & tr & Hg & Hne & Hr & Hsn & Hres) end;
+          nrm Hr; peel Hr as cb r4 Hcb; exists l', (cb :: r4), tr, cb, r4;
+          (split; [apply seplist_g_args; exact Hg|]); (split; [exact Hcb|]); (split; [exact Hr|]); (split; [reflexivity|]);
+          (split; [exact Hsn|]);
+          destruct l' as [|a' [|b' l'']]; try discriminate Hsn; try congruence;
+          destruct a'; try discriminate Hsn; unfold p_new_args; fin_res.
+        nrm H. peel H as el r3 Hel. peel H as cb r4 Hcb.
+        exists [AFill (tsp el)], (cb :: r4), false, cb, r4.
+        split; [apply ga_one, gar_fill; tokg|]. split; [exact Hcb|]. split; [exact H|]. split; [reflexivity|]. split; reflexivity.
+      - assert (H' : Forall2 R r2 (catoks src [] (p_args (a :: b :: l) ++ CDec :: CIndent :: CTok TCloseBrace :: rest))).
+        { destruct a; nrm H; exact H. }
+        destruct (rt_args (b :: l) a Hf _ _ H') as (l' & r3 & tr & Hg & Hne & Hr & Hsn & Hres).
+        nrm Hr. peel Hr as cb r4 Hcb. exists l', (cb :: r4), tr, cb, r4.
+        split; [apply seplist_g_args; exact Hg|]. split; [exact Hcb|]. split; [exact Hr|]. split; [reflexivity|].
+        split; [exact Hsn|]. destruct l' as [|a' [|b' l'']]; try discriminate Hsn.
+        unfold p_new_args. assert (E : forall (a0 : inst_arg) b0 l0,
+            match a0 :: b0 :: l0 with
+            | [] => [CTok TCloseBrace]
+            | [AFill _] => [CSp; CTok TEllipsis; CSp; CTok TCloseBrace]
+            | _ => [CNewline; CInc] ++ p_args (a0 :: b0 :: l0) ++ [CDec; CIndent; CTok TCloseBrace]
+            end = [CNewline; CInc] ++ p_args (a0 :: b0 :: l0) ++ [CDec; CIndent; CTok TCloseBrace])
+          by (intros [] ? ?; reflexivity).
+        rewrite !E. fin_res. }
+    destruct Hbody as (args' & r3 & tr & cb & r4 & Hg & Hcb & Hr & _ & Hsn & Hres).
+    exists (PNew (span_join (tsp k0) (tsp cb)) pkg' args'), r4. split.
+    { eapply gp_new; [tokg|exists pt; split; [tokg|exact E0]|tokg|exact Hg|apply args_ok_impl|tokg]. }
+    split; [exact Hr|]. split; [rewrite !sn_new_eq; congruence|]. rewrite !p_new_eq. fin_res.
+  - (* nested *)
+    intros sp x IHx Hwf docs rest ts H. cbn [p_primary] in H. nrm H. peel H as op r0 Hop.
+    destruct (IHx Hwf _ _ _ H) as (x' & r1 & Hg & Hr & Hsn & Hres). nrm Hr. peel Hr as cp r2 Hcp.
+    exists (PNested (span_join (tsp op) (tsp cp)) x'), r2. split; [eapply gp_nested; [tokg|exact Hg|tokg]|].
+    split; [exact Hr|]. split; [cbn [sn_primary]; congruence|]. cbn [p_primary]. fin_res.
+  - (* identifier *)
+    intros i Hwf docs rest ts H. cbn [p_primary] in H. nrm H. peel H as it r0 Hit.
+    destruct (leaf_ident _ _ _ Hwf Hit) as [E1 E2].
+    exists (PIdent (mk_ident it)), r0. split; [apply gp_id; eapply g_id_intro; eauto|]. split; [exact H|].
+    split; [cbn [sn_primary]; congruence|]. cbn [p_primary]. fin_res.
+  - (* inferred *)
+    intros i Hwf docs rest ts H. cbn [p_arg0] in H. nrm H. peel H as it r0 Hit.
+    destruct (leaf_ident _ _ _ Hwf Hit) as [E1 E2].
+    exists (AInferred (mk_ident it)), r0. split; [apply gar_inferred; eapply g_id_intro; eauto|]. split; [exact H|].
+    split; [cbn [sn_arg]; congruence|]. cbn [p_arg0]. fin_res.
+  - (* spread *)
+    intros i Hwf docs rest ts H. cbn [p_arg0] in H. nrm H. peel H as el r0 Hel. peel H as it r1 Hit.
+    destruct (leaf_ident _ _ _ Hwf Hit) as [E1 E2].
+    exists (ASpread (mk_ident it)), r1. split; [eapply gar_spread; [tokg|eapply g_id_intro; eauto]|]. split; [exact H|].
+    split; [cbn [sn_arg]; congruence|]. cbn [p_arg0]. fin_res.
+  - (* named *)
+    intros n x IHx [Hn Hx] docs rest ts H. cbn [p_arg0] in H. nrm H.
+    destruct (rt_arg_name _ Hn _ _ _ H) as (n' & r0 & Hgn & Hr & Hsnn & Hresn). nrm Hr. peel Hr as co r1 Hco.
+    destruct (IHx Hx _ _ _ Hr) as (x' & r2 & Hg & Hr2 & Hsn & Hres).
+    exists (ANamed n' x'), r2. split; [eapply gar_named; [exact Hgn|tokg|exact Hg]|]. split; [exact Hr2|].
+    split; [cbn [sn_arg]; congruence|]. cbn [p_arg0]. fin_res.
+  - (* fill *)
+    intros sp _ docs rest ts H. cbn [p_arg0] in H. nrm H. peel H as el r0 Hel.
+    exists (AFill (tsp el)), r0. split; [apply gar_fill; tokg|]. split; [exact H|]. split; reflexivity.
+Qed.
+
+(* ------------------------------------------------------------------ statements, document *)
+
+Lemma rt_extern_name n : wf_extern_name src n -> rt1 g_extern_name p_extern_name sn_extern_name n.
+Proof.
+  destruct n as [i|s0]; intros Hwf docs rest ts H; cbn [p_extern_name] in H; nrm H.
+  - peel H as it r0 Hit. destruct (leaf_ident _ _ _ Hwf Hit) as [E1 E2].
+    exists (ENIdent (mk_ident it)), r0. split; [apply gen_id; eapply g_id_intro; eauto|]. split; [exact H|].
+    split; [cbn [sn_extern_name]; congruence|]. cbn [p_extern_name]. fin_res.
+  - peel H as st r0 Hst. destruct (leaf_strlit _ _ _ Hwf Hst) as (s' & E0 & E1 & E2).
+    exists (ENString s'), r0. split; [apply gen_string; exists st; split; [tokg|exact E0]|]. split; [exact H|].
+    split; [cbn [sn_extern_name]; congruence|]. cbn [p_extern_name]. fin_res.
+Qed.
+
+Lemma rt_import_type t :
+  match t with
+  | ITPackage p => wf_package_path src p
+  | ITFunc f => wf_func_type src f
+  | ITInterface items => All (wf_interface_item src) items
+  | ITIdent j => wf_ident src j
+  end -> rt1 (g_import_type d) (p_import_type fx) sn_import_type t.
+Proof.
+  destruct t as [pp|f|items|j]; intros Hwf docs rest ts H; cbn [p_import_type] in H.
+  - nrm H. peel H as pt r1 Hpt. destruct (leaf_package_path _ _ _ Hwf Hpt) as (p' & E0 & E1 & E2).
+    exists (ITPackage p'), r1. split; [apply git_package; exists pt; split; [tokg|exact E0]|]. split; [exact H|].
+    split; [cbn [sn_import_type]; congruence|]. cbn [p_import_type]. fin_res.
+  - destruct (rt_func_type _ Hwf _ _ _ H) as (f' & r & Hg & Hr & Hsn & Hres).
+    exists (ITFunc f'), r. split; [apply git_func; exact Hg|]. split; [exact Hr|].
+    split; [cbn [sn_import_type]; congruence|exact Hres].
+  - destruct (rt_inline_interface _ Hwf _ _ _ H) as (items' & r & Hg & Hr & Hsn & Hres).
+    exists (ITInterface items'), r. split; [apply git_interface; exact Hg|]. split; [exact Hr|].
+    split; [cbn [sn_import_type]; congruence|exact Hres].
+  - nrm H. peel H as it r0 Hit. destruct (leaf_ident _ _ _ Hwf Hit) as [E1 E2].
+    exists (ITIdent (mk_ident it)), r0. split; [apply git_id; eapply g_id_intro; eauto|]. split; [exact H|].
+    split; [cbn [sn_import_type]; congruence|]. cbn [p_import_type]. fin_res.
+Qed.
+
+Lemma rt_statement st : wf_statement src st -> rt1d (g_statement d) (p_statement fx) sn_statement st.
+Proof.
+  destruct st as [dcs i name t|t|dcs i x|dcs x o]; intros Hwf rest ts H; cbn [p_statement] in H.
+  - (* import *)
+    destruct Hwf as (Hi & Hname & Ht). nrm H. dstep H. peel H as k0 r0 Hk0. peel H as it r1 Hit.
+    destruct (leaf_ident _ _ _ Hi Hit) as [H1 H2]. destruct (docs_back2 _ _ _ _ Hk0) as [D1 D2].
+    assert (Hn : exists name' r2, opt TAsKeyword g_extern_name (map LTok r1) (map LTok r2) name' /\
+              Forall2 R r2 (catoks src [] (CTok TColon :: CSp :: p_import_type fx t ++ CTok TSemicolon :: rest)) /\
+              option_map sn_extern_name name' = option_map sn_extern_name name /\
+              map (res1 src') (match name' with Some n => [CSp; CTok TAsKeyword; CSp] ++ p_extern_name n | None => [] end) =
+              map (res1 src) (match name with Some n => [CSp; CTok TAsKeyword; CSp] ++ p_extern_name n | None => [] end)).
+    { destruct name as [n|]; nrm H.
+      - peel H as ask r2 Hask. destruct (rt_extern_name _ Hname _ _ _ H) as (n' & r3 & Hg & Hr & Hsn & Hres).
+        exists (Some n'), r3. split; [eapply opt_some; [tokg|exact Hg]|]. split; [exact Hr|].
+        split; [cbn [option_map]; congruence|]. fin_res.
+      - exists None, r1. split; [constructor|]. split; [exact H|]. split; reflexivity. }
+    destruct Hn as (name' & r2 & Hgn & Hr & Hsnn & Hresn). simp_res_in Hresn. peel Hr as co r3 Hco.
+    destruct (rt_import_type _ Ht _ _ _ Hr) as (t' & r4 & Hg & Hr2 & Hsn & Hres). nrm Hr2. peel Hr2 as sc r5 Hsc.
+    exists (SImport (tdocs k0) (mk_ident it) name' t'), r5.
+    split; [eapply gs_import; [tokg|eapply g_id_intro; eauto|exact Hgn|tokg|exact Hg|tokg]|].
+    split; [exact Hr2|]. split; [cbn [sn_statement]; congruence|]. cbn [p_statement]. fin_res.
+  - (* type statement *)
+    destruct (rt_type_statement _ Hwf _ _ H) as (t' & r & Hg & Hr & Hsn & Hres).
+    exists (SType t'), r. split; [apply gs_type; exact Hg|]. split; [exact Hr|].
+    split; [cbn [sn_statement]; congruence|exact Hres].
+  - (* let *)
+    destruct Hwf as [Hi Hx]. nrm H. dstep H. peel H as k0 r0 Hk0. peel H as it r1 Hit. peel H as eq r2 Heq.
+    destruct (leaf_ident _ _ _ Hi Hit) as [H1 H2]. destruct (docs_back2 _ _ _ _ Hk0) as [D1 D2].
+    destruct (rt_expr_all _ Hx _ _ _ H) as (x' & r3 & Hg & Hr & Hsn & Hres). nrm Hr. peel Hr as sc r4 Hsc.
+    exists (SLet (tdocs k0) (mk_ident it) x'), r4.
+    split; [eapply gs_let; [tokg|eapply g_id_intro; eauto|tokg|exact Hg|tokg]|].
+    split; [exact Hr|]. split; [cbn [sn_statement]; congruence|]. cbn [p_statement]. fin_res.
+  - (* export *)
+    destruct Hwf as [Hx Ho]. nrm H. dstep H. peel H as k0 r0 Hk0. destruct (docs_back2 _ _ _ _ Hk0) as [D1 D2].
+    destruct (rt_expr_all _ Hx _ _ _ H) as (x' & r1 & Hg & Hr & Hsn & Hres).
+    assert (Hopt : exists o' r2, g_export_options (map LTok r1) (map LTok r2) o' /\
+              Forall2 R r2 (catoks src [] (CTok TSemicolon :: rest)) /\
+              sn_export_options o' = sn_export_options o /\
+              map (res1 src') (match o' with EONone => [] | EOSpread _ => [CTok TEllipsis]
+                                        | EORename n => [CSp; CTok TAsKeyword; CSp] ++ p_extern_name n end) =
+              map (res1 src) (match o with EONone => [] | EOSpread _ => [CTok TEllipsis]
+                                      | EORename n => [CSp; CTok TAsKeyword; CSp] ++ p_extern_name n end)).
+    { destruct o as [|osp|n]; nrm Hr.
+      - exists EONone, r1. split; [constructor|]. split; [exact Hr|]. split; reflexivity.
+      - peel Hr as el r2 Hel. exists (EOSpread (tsp el)), r2. split; [apply geo_spread; tokg|]. split; [exact Hr|].
+        split; reflexivity.
+      - peel Hr as ask r2 Hask. destruct (rt_extern_name _ Ho _ _ _ Hr) as (n' & r3 & Hgn & Hr2 & Hsnn & Hresn).
+        exists (EORename n'), r3. split; [eapply geo_rename; [tokg|exact Hgn]|]. split; [exact Hr2|].
+        split; [cbn [sn_export_options]; congruence|]. fin_res. }
+    destruct Hopt as (o' & r2 & Hgo & Hr2 & Hsno & Hreso). simp_res_in Hreso. peel Hr2 as sc r3 Hsc.
+    exists (SExport (tdocs k0) x' o'), r3.
+    split; [eapply gs_export; [tokg|exact Hg|exact Hgo|tokg]|].
+    split; [exact Hr2|]. split; [cbn [sn_statement]; congruence|]. cbn [p_statement]. fin_res.
+Qed.
+
+(** The whole document: the tokens of [p_document] derive a document [sn]-equal to the original, and
+    printing it issues the same resolved commands. *)
+Theorem rt_document doc :
+  wf_document src doc ->
+  forall ts, Forall2 R ts (catoks src [] (p_document fx doc)) ->
+  exists doc', g_document d (map LTok ts) [] doc' /\ sn doc' = sn doc /\
+               map (res1 src') (p_document fx doc') = map (res1 src) (p_document fx doc).
+Proof.
+  destruct doc as [dcs [pkg tg] stmts]. intros (Hpkg & Htg & Hst) ts H. cbn [doc_directive pd_package pd_targets doc_statements] in *.
+  unfold p_document, p_directive in H. cbn [doc_docs doc_directive doc_statements pd_package pd_targets] in H.
+  rewrite <- (app_nil_r (spaced _ _ _)) in H. nrm H. dstep H.
+  peel H as k0 r0 Hk0. peel H as pt r1 Hpt. destruct (docs_back2 _ _ _ _ Hk0) as [D1 D2].
+  destruct (leaf_package_name _ _ _ Hpkg Hpt) as (pkg' & E0 & E1 & E2).
+  assert (Htg' : exists tg' r2, opt TTargetsKeyword g_package_path (map LTok r1) (map LTok r2) tg' /\
+            Forall2 R r2 (catoks src [] (CTok TSemicolon :: CRawNl :: CNewline :: spaced (p_statement fx) true stmts ++ [])) /\
+            option_map sn_package_path tg' = option_map sn_package_path tg /\
+            map (res1 src') (match tg' with Some p => [CSp; CTok TTargetsKeyword; CSp] ++ [src_path p] | None => [] end) =
+            map (res1 src) (match tg with Some p => [CSp; CTok TTargetsKeyword; CSp] ++ [src_path p] | None => [] end)).
+  { destruct tg as [p|]; cbn [fx_targets_keyword fx repaired] in H; nrm H.
+    - peel H as tk0 r2 Htk. peel H as ptt r3 Hptt. destruct (leaf_package_path _ _ _ Htg Hptt) as (p' & F0 & F1 & F2).
+      exists (Some p'), r3. split; [eapply opt_some; [tokg|exists ptt; split; [tokg|exact F0]]|]. split; [exact H|].
+      split; [cbn [option_map]; congruence|]. fin_res.
+    - exists None, r1. split; [constructor|]. split; [exact H|]. split; reflexivity. }
+  destruct Htg' as (tg' & r2 & Hgt & Hr & Hsnt & Hrest). simp_res_in Hrest. peel Hr as sc r3 Hsc. nrm Hr.
+  destruct (rt_spaced (g_statement d) (p_statement fx) sn_statement stmts
+              (All_Forall _ _ _ rt_statement Hst) _ _ _ Hr) as (stmts' & r4 & Hg & Hr2 & Hsn & Hres).
+  cbn [catoks] in Hr2. inversion Hr2; subst.
+  exists {| doc_docs := tdocs k0; doc_directive := {| pd_package := pkg'; pd_targets := tg' |}; doc_statements := stmts' |}.
+  split.
+  { exists (map LTok r3), {| pd_package := pkg'; pd_targets := tg' |}, stmts'. split; [|split; [exact Hg|reflexivity]].
+    do 3 eexists. exists k0, pkg', tg', sc. split; [tokg|]. split; [exists pt; split; [tokg|exact E0]|].
+    split; [exact Hgt|]. split; [tokg|reflexivity]. }
+  split.
+  { unfold sn, sn_directive. cbn [doc_docs doc_directive doc_statements pd_package pd_targets]. congruence. }
+  unfold p_document, p_directive. cbn [fx_targets_keyword fx repaired]. specialize (Hres true). fin_res.
+Qed.
+
 End RoundTrip.
+
+(* ------------------------------------------------------------------ from pieces to tokens *)
+
+Lemma erase_tokens_of_pieces ps : forall o docs,
+  map erase (tokens_of_pieces o docs ps) = patoks (map fst docs) ps.
+Proof.
+  induction ps as [|p ps IH]; intros o docs; [reflexivity|].
+  destruct p; cbn [tokens_of_pieces patoks map].
+  - unfold erase at 1. cbn [tk ttext tdocs]. f_equal. apply (IH _ []).
+  - apply IH.
+  - rewrite IH, map_app. reflexivity.
+Qed.
+
+(** Every token of [tokens_of_pieces] stands, in the concatenated text, at its span. *)
+Lemma tokens_of_pieces_accurate ps : forall pre docs,
+  Forall (fun t => slice (pre ++ text_of ps) (tsp t) = Some (ttext t)) (tokens_of_pieces (byte_len pre) docs ps).
+Proof.
+  induction ps as [|p ps IH]; intros pre docs; [constructor|].
+  destruct p as [k t|s|l]; cbn [tokens_of_pieces text_of flat_map piece_text].
+  - constructor.
+    + cbn [tsp ttext]. apply slice_at.
+    + rewrite <- byte_len_app. rewrite app_assoc. apply IH.
+  - rewrite <- byte_len_app. rewrite app_assoc. apply IH.
+  - rewrite <- byte_len_app. rewrite app_assoc. apply IH.
+Qed.
+
+Lemma Forall2_of_map {A B} (f : A -> B) (P : A -> Prop) l l' :
+  map f l = l' -> Forall P l -> Forall2 (fun a b => f a = b /\ P a) l l'.
+Proof.
+  intros <- H. induction H as [|a l Ha _ IH]; cbn; constructor; auto.
+Qed.
+
+(** The tokens denoted by the printed pieces are related by [R] to the printer's commands. *)
+Lemma pieces_R src cs ps :
+  layout src 0 false cs = Some ps ->
+  Forall2 (R (text_of ps)) (tokens_of_pieces 0 [] ps) (catoks src [] cs).
+Proof.
+  intros H. unfold R. apply Forall2_of_map.
+  - rewrite erase_tokens_of_pieces. cbn [map]. eapply patoks_layout; eauto.
+  - exact (tokens_of_pieces_accurate ps [] []).
+Qed.
+
+(* ------------------------------------------------------------------ the theorems *)
+
+(** Token level: for a well-formed tree, the tokens written by the repaired printer are derived by
+    the grammar as a document [sn]-equal to the original, and the parser (under any environment that
+    carries the implementation's flags and enough fuel) returns it. *)
+Theorem print_tokens_roundtrip_derivation src doc ps :
+  wf_document src doc -> print_pieces repaired src doc = Some ps ->
+  exists doc', g_document impl_flags (items_of_pieces ps) [] doc' /\ sn doc' = sn doc /\
+               print_pieces repaired (text_of ps) doc' = Some ps.
+Proof.
+  intros Hwf Hp. unfold print_pieces in *.
+  destruct (rt_document src (text_of ps) doc Hwf _ (pieces_R _ _ _ Hp)) as (doc' & Hg & Hsn & Hres).
+  exists doc'. split; [exact Hg|]. split; [exact Hsn|].
+  rewrite layout_res, Hres, <- layout_res. exact Hp.
+Qed.
+
+Theorem print_tokens_roundtrip_parser src doc ps e :
+  wf_document src doc -> print_pieces repaired src doc = Some ps ->
+  dv e = impl_flags -> length (items_of_pieces ps) < fuel e ->
+  exists doc', parse_document_items e (items_of_pieces ps) = POk doc' [] /\ sn doc' = sn doc /\
+               print_pieces repaired (text_of ps) doc' = Some ps.
+Proof.
+  intros Hwf Hp Hd Hf. destruct (print_tokens_roundtrip_derivation _ _ _ Hwf Hp) as (doc' & Hg & Hsn & Hid).
+  exists doc'. split; [|auto]. apply parse_document_items_complete; [rewrite Hd; exact Hg|exact Hf].
+Qed.
+
+(** The printer does not panic on a well-formed tree. *)
+Lemma slice_or_nil_some src sp t : slice src sp = Some t -> slice_or_nil src sp = t.
+Proof. unfold slice_or_nil. now intros ->. Qed.
+
+(** Text level, given that the printed text lexes to the tokens the printer meant ([render_lex] for
+    this document): the round trip and the idempotence of formatting. *)
+Theorem roundtrip_of_render_lex src doc ps :
+  wf_document src doc -> print_pieces repaired src doc = Some ps ->
+  lex impl_cfg (text_of ps) = items_of_pieces ps ->
+  RoundTrip repaired src doc /\ Idempotent repaired src doc.
+Proof.
+  intros Hwf Hp Hlex.
+  assert (Hprint : print repaired src doc = Some (text_of ps)) by (unfold print; now rewrite Hp).
+  set (e := {| dv := impl_flags; cx := mk_ctx (byte_len (text_of ps)) (items_of_pieces ps);
+               fuel := S (length (items_of_pieces ps)) |}).
+  destruct (print_tokens_roundtrip_parser src doc ps e Hwf Hp eq_refl (Nat.lt_succ_diag_r _)) as (doc' & Hparse & Hsn & Hid).
+  assert (Hre : reparse (text_of ps) = POk doc' []).
+  { unfold reparse, parse_document. change (cfg_with impl_flags impl_cfg) with impl_cfg. rewrite Hlex. exact Hparse. }
+  split.
+  - exists (text_of ps), doc'. auto.
+  - intros text d' Ht Hd'. rewrite Hprint in Ht. inversion Ht; subst text. rewrite Hre in Hd'. inversion Hd'; subst d'.
+    unfold print. now rewrite Hid.
+Qed.
